@@ -1,15 +1,2234 @@
-//! C15 — engine not implemented yet.
+//! C15 — formatting never changes the program and is idempotent (core X1: bounded-exhaustive
+//! enumeration of texts x formatter configurations x ranges / positions, every one formatted by
+//! the REAL code).
+//!
+//! Seams
+//!   * `lsp`: the real `trust-lsp` binary over stdio JSON-RPC (`textDocument/formatting`,
+//!     `rangeFormatting`, `onTypeFormatting`); options are supplied the way a client supplies them:
+//!     `FormattingOptions` of the request, `workspace/didChangeConfiguration`
+//!     (`trust-lsp.format.*`) and a `trust-lsp.toml` with `[project] vendor_profile` in the
+//!     workspace folder that owns the document.
+//!   * `web`: `trust_runtime::web::ide::WebIdeState::format_source` in-process.
+//!
+//! Oracle (only what the property statement says), `trust_syntax::lex` on both sides:
+//!   tokens     same sequence of non-trivia token texts; two tokens that are both keywords
+//!              (`TokenKind::is_keyword`) are compared ASCII-case-insensitively, everything else
+//!              byte for byte;
+//!   specials   same comments, pragmas and string literals in the same order (comments / pragmas are
+//!              compared modulo line-ending style and leading/trailing blanks of each of their
+//!              lines: a formatter may re-indent continuation lines and trim line ends);
+//!   idempotent format(format(s)) == format(s);
+//!   range / ontype  the text obtained by applying the returned edits has the same tokens and
+//!              specials as s (an edit that pastes text of other lines or drops non-blank lines
+//!              necessarily changes one of the two sequences).
+//! Inputs whose lexing contains `Error` tokens (stratum `lexerr`) are only required not to crash the
+//! formatter and to keep the token-text sequence; no idempotence / specials claim is made for them
+//! (an unterminated comment is one multi-line Error token, "the same comments" has no meaning).
+//!
+//! The idempotence pass and the range / on-type checks of a (text, configuration) are evaluated
+//! only where the whole-document pass kept the program: a first pass that already changed the
+//! tokens is reported by the `tokens` clause, its derived symptoms are not reported again.
+//!
+//! Signatures: `C15/<clause>/<seam>/<operation>/<input stratum>/<cause feature>`; strata are
+//! `valid` (parses without errors), `synerr`, `lexerr`, each `+mlpragma` when a pragma spans lines;
+//! the cause feature of a glued token pair is (observed spacing style, left token kind, what the
+//! pair became) — the inputs of the formatter's gluing decision; for range / on-type edits it is
+//! whether whole-document formatting changes the number of lines.
+//!
+//! Mechanics: requests of a window of texts are pipelined on one connection (the reader thread
+//! drains the server continuously; server->client requests are answered at once); a window in which
+//! the server panicked / died / hung is re-run one request at a time on fresh servers to attribute
+//! the failure. Closed scratch documents are reported as deleted files so that the server's project
+//! stays small. A `null` answer to whole-document formatting (= document unknown) is a machinery
+//! error. Every configuration switch is followed by an answered probe request (barrier).
+//!
+//! Left out of the alphabet on purpose: astral-plane characters (column arithmetic of the server is
+//! per `char`, that is property C14), lone `\r` line ends (LSP counts them as line breaks, the
+//! server does not: C14 as well), form feed / NBSP (lexer Error tokens that `str::trim` removes).
 
 use crate::fw::*;
 use crate::iso::WorkerFn;
-use serde_json::Value;
+use crate::par::par_map;
+use serde_json::{json, Map, Value};
+use std::collections::{HashSet, VecDeque};
+use std::io::{BufRead, BufReader, Read, Write};
+use std::path::{Path, PathBuf};
+use std::process::{Child, ChildStdin, Command, Stdio};
+use std::sync::atomic::{AtomicU64, Ordering};
+use std::sync::{mpsc, Arc, Mutex};
+use std::time::{Duration, Instant};
+use trust_runtime::web::ide::{IdeRole, WebIdeState};
+use trust_syntax::lexer::{lex, TokenKind};
+use trust_syntax::parser::parse;
 
-pub fn run(_ctx: &Ctx) -> EngineResult {
-    machinery("engine C15 not implemented")
+// ------------------------------------------------------------------------------------------------
+// configurations
+// ------------------------------------------------------------------------------------------------
+
+const INDENT: &[&str] = &["sp4", "sp2", "tab", "cfg3"];
+const CASE: &[&str] = &["unset", "preserve", "upper", "lower"];
+const SPACING: &[&str] = &["unset", "spaced", "compact"];
+const ENDKW: &[&str] = &["unset", "aligned", "indented"];
+const TRI: &[&str] = &["unset", "true", "false"];
+const MAXLEN: &[&str] = &["unset", "20", "40"];
+const VENDOR: &[&str] = &["none", "codesys", "siemens", "mitsubishi"];
+const DIMS: &[(&str, &[&str])] = &[
+    ("indent", INDENT),
+    ("keywordCase", CASE),
+    ("spacingStyle", SPACING),
+    ("endKeywordStyle", ENDKW),
+    ("alignVarDecls", TRI),
+    ("alignAssignments", TRI),
+    ("maxLineLength", MAXLEN),
+    ("vendor", VENDOR),
+];
+
+/// One formatter configuration: index into the menu of every dimension of `DIMS`.
+#[derive(Clone, Copy, Debug, PartialEq, Eq, Hash)]
+pub struct Cfg(pub [u8; 8]);
+
+impl Cfg {
+    fn name(&self, d: usize) -> &'static str {
+        DIMS[d].1[self.0[d] as usize]
+    }
+    fn to_json(self) -> Value {
+        let mut m = Map::new();
+        for (d, (k, _)) in DIMS.iter().enumerate() {
+            m.insert((*k).to_string(), json!(self.name(d)));
+        }
+        Value::Object(m)
+    }
+    fn from_json(v: &Value) -> Cfg {
+        let mut c = [0u8; 8];
+        for (d, (k, menu)) in DIMS.iter().enumerate() {
+            if let Some(s) = v.get(*k).and_then(Value::as_str) {
+                if let Some(i) = menu.iter().position(|m| *m == s) {
+                    c[d] = i as u8;
+                }
+            }
+        }
+        Cfg(c)
+    }
+    /// `settings` of workspace/didChangeConfiguration
+    fn settings(&self) -> Value {
+        let mut f = Map::new();
+        if self.name(0) == "cfg3" {
+            f.insert("indentWidth".into(), json!(3));
+            f.insert("insertSpaces".into(), json!(true));
+        }
+        if self.name(1) != "unset" {
+            f.insert("keywordCase".into(), json!(self.name(1)));
+        }
+        if self.name(2) != "unset" {
+            f.insert("spacingStyle".into(), json!(self.name(2)));
+        }
+        if self.name(3) != "unset" {
+            f.insert("endKeywordStyle".into(), json!(self.name(3)));
+        }
+        if self.name(4) != "unset" {
+            f.insert("alignVarDecls".into(), json!(self.name(4) == "true"));
+        }
+        if self.name(5) != "unset" {
+            f.insert("alignAssignments".into(), json!(self.name(5) == "true"));
+        }
+        if self.name(6) != "unset" {
+            f.insert("maxLineLength".into(), json!(self.name(6).parse::<u64>().unwrap()));
+        }
+        json!({ "trust-lsp": { "format": Value::Object(f) } })
+    }
+    /// `FormattingOptions` of the request
+    fn options(&self) -> Value {
+        match self.name(0) {
+            "sp2" => json!({"tabSize": 2, "insertSpaces": true}),
+            "sp4" => json!({"tabSize": 4, "insertSpaces": true}),
+            "tab" => json!({"tabSize": 4, "insertSpaces": false}),
+            _ => json!({"tabSize": 8, "insertSpaces": false}),
+        }
+    }
+    fn vendor(&self) -> &'static str {
+        self.name(7)
+    }
+    fn short(&self) -> String {
+        (0..8).map(|d| self.name(d)).collect::<Vec<_>>().join(",")
+    }
 }
 
-pub fn check_case(_case: &Value) -> Vec<Violation> {
-    Vec::new()
+const DEFAULT_CFG: Cfg = Cfg([0; 8]);
+
+/// Deterministic greedy pairwise covering array over `DIMS` (every pair of option values of two
+/// different dimensions occurs in at least one row). Row 0 is the all-default configuration.
+fn covering_array() -> Vec<Cfg> {
+    let nd = DIMS.len();
+    let size = |d: usize| DIMS[d].1.len();
+    let mut uncovered: HashSet<(usize, u8, usize, u8)> = HashSet::new();
+    for a in 0..nd {
+        for b in a + 1..nd {
+            for va in 0..size(a) {
+                for vb in 0..size(b) {
+                    uncovered.insert((a, va as u8, b, vb as u8));
+                }
+            }
+        }
+    }
+    let cover = |row: &[u8; 8], unc: &mut HashSet<(usize, u8, usize, u8)>| {
+        for a in 0..nd {
+            for b in a + 1..nd {
+                unc.remove(&(a, row[a], b, row[b]));
+            }
+        }
+    };
+    let mut rows = vec![DEFAULT_CFG];
+    cover(&DEFAULT_CFG.0, &mut uncovered);
+    while !uncovered.is_empty() {
+        // seed with the smallest uncovered pair, then fill the other dimensions greedily
+        let seed = *uncovered.iter().min().unwrap();
+        let mut row: [Option<u8>; 8] = [None; 8];
+        row[seed.0] = Some(seed.1);
+        row[seed.2] = Some(seed.3);
+        for d in 0..nd {
+            if row[d].is_some() {
+                continue;
+            }
+            let mut best = (0usize, 0u8);
+            for v in 0..size(d) as u8 {
+                let gain = (0..nd)
+                    .filter(|&o| o != d && row[o].is_some())
+                    .filter(|&o| {
+                        let (a, va, b, vb) = if o < d { (o, row[o].unwrap(), d, v) } else { (d, v, o, row[o].unwrap()) };
+                        uncovered.contains(&(a, va, b, vb))
+                    })
+                    .count();
+                if gain > best.0 {
+                    best = (gain, v);
+                }
+            }
+            row[d] = Some(best.1);
+        }
+        let mut r = [0u8; 8];
+        for d in 0..nd {
+            r[d] = row[d].unwrap();
+        }
+        cover(&r, &mut uncovered);
+        rows.push(Cfg(r));
+    }
+    rows
+}
+
+/// Full product of the *explicit* option values (no "unset"; vendor none/codesys/siemens).
+fn full_product() -> Vec<Cfg> {
+    let menus: [&[u8]; 8] = [&[0, 1, 2], &[1, 2, 3], &[1, 2], &[1, 2], &[1, 2], &[1, 2], &[0, 1, 2], &[0, 1, 2]];
+    let mut out = Vec::new();
+    let mut idx = [0usize; 8];
+    loop {
+        let mut c = [0u8; 8];
+        for d in 0..8 {
+            c[d] = menus[d][idx[d]];
+        }
+        out.push(Cfg(c));
+        let mut d = 0;
+        loop {
+            if d == 8 {
+                return out;
+            }
+            idx[d] += 1;
+            if idx[d] < menus[d].len() {
+                break;
+            }
+            idx[d] = 0;
+            d += 1;
+        }
+    }
+}
+
+// ------------------------------------------------------------------------------------------------
+// JSON-RPC client for the real trust-lsp binary
+// ------------------------------------------------------------------------------------------------
+
+#[derive(Debug, Clone)]
+pub enum LspFail {
+    /// the server process died / closed its stdout (stderr tail attached)
+    Died(String),
+    /// no answer within the per-request limit
+    Timeout,
+    /// JSON-RPC error response
+    Rpc(i64, String),
+    /// the harness and the server disagree about the protocol state (machinery error)
+    Protocol(String),
+}
+
+#[derive(Debug, Clone, PartialEq)]
+pub struct Edit {
+    sl: u32,
+    sc: u32,
+    el: u32,
+    ec: u32,
+    text: String,
+}
+
+pub struct Lsp {
+    child: Child,
+    stdin: ChildStdin,
+    rx: mpsc::Receiver<Value>,
+    stderr_tail: Arc<Mutex<VecDeque<String>>>,
+    /// message of a panic seen on the server's stderr
+    panic_msg: Arc<Mutex<Option<String>>>,
+    next_id: u64,
+    next_doc: u64,
+    root: PathBuf,
+    root_uri: String,
+    settings: Option<String>,
+    /// spacing style observed for the current settings + vendor folder
+    pub style: &'static str,
+    /// closed documents not yet removed from the server's project
+    closed: Vec<String>,
+    pub triggers: Vec<String>,
+    pub requests: u64,
+}
+
+fn lsp_bin() -> PathBuf {
+    match std::env::var("TV_LSP_BIN") {
+        Ok(p) if !p.is_empty() => PathBuf::from(p),
+        _ => {
+            let repo = std::env::var("TV_REPO_DIR").unwrap_or_else(|_| "/repo".into());
+            PathBuf::from(repo).join("target/debug/trust-lsp")
+        }
+    }
+}
+
+fn path_to_uri(p: &Path) -> String {
+    let mut s = String::from("file://");
+    for b in p.display().to_string().bytes() {
+        if b.is_ascii_alphanumeric() || matches!(b, b'/' | b'-' | b'_' | b'.' | b'~') {
+            s.push(b as char);
+        } else {
+            s.push_str(&format!("%{b:02X}"));
+        }
+    }
+    s
+}
+
+const REQ_TIMEOUT: Duration = Duration::from_secs(30);
+
+impl Lsp {
+    /// Spawns a server whose workspace folders are `root/<vendor>` for every vendor profile.
+    pub fn spawn(root: &Path) -> Result<Lsp, String> {
+        let bin = lsp_bin();
+        if !bin.is_file() {
+            return Err(format!("trust-lsp binary not found at {bin:?} (set TV_LSP_BIN)"));
+        }
+        std::fs::create_dir_all(root).map_err(|e| format!("create {root:?}: {e}"))?;
+        for v in VENDOR {
+            let dir = root.join(v);
+            std::fs::create_dir_all(&dir).map_err(|e| format!("create {dir:?}: {e}"))?;
+            if *v != "none" {
+                std::fs::write(dir.join("trust-lsp.toml"), format!("[project]\nvendor_profile = \"{v}\"\n"))
+                    .map_err(|e| format!("write trust-lsp.toml: {e}"))?;
+            }
+        }
+        let mut child = Command::new(&bin)
+            .current_dir(root)
+            .env("RUST_LOG", "error")
+            .env("NO_COLOR", "1")
+            .env("RUST_BACKTRACE", "0")
+            // fewer runtime threads per server: 16 servers run side by side
+            .env("TOKIO_WORKER_THREADS", "2")
+            .stdin(Stdio::piped())
+            .stdout(Stdio::piped())
+            .stderr(Stdio::piped())
+            .spawn()
+            .map_err(|e| format!("cannot spawn {bin:?}: {e}"))?;
+        let stdin = child.stdin.take().unwrap();
+        let stdout = child.stdout.take().unwrap();
+        let stderr = child.stderr.take().unwrap();
+        let (tx, rx) = mpsc::channel();
+        std::thread::spawn(move || {
+            let mut r = BufReader::new(stdout);
+            loop {
+                let mut len: Option<usize> = None;
+                loop {
+                    let mut line = String::new();
+                    match r.read_line(&mut line) {
+                        Ok(0) | Err(_) => return,
+                        Ok(_) => {}
+                    }
+                    let l = line.trim_end();
+                    if l.is_empty() {
+                        break;
+                    }
+                    if let Some(v) = l.to_ascii_lowercase().strip_prefix("content-length:") {
+                        len = v.trim().parse().ok();
+                    }
+                }
+                let Some(n) = len else { return };
+                let mut buf = vec![0u8; n];
+                if r.read_exact(&mut buf).is_err() {
+                    return;
+                }
+                let Ok(v) = serde_json::from_slice::<Value>(&buf) else { return };
+                if tx.send(v).is_err() {
+                    return;
+                }
+            }
+        });
+        let stderr_tail = Arc::new(Mutex::new(VecDeque::new()));
+        let tail2 = Arc::clone(&stderr_tail);
+        let panic_msg: Arc<Mutex<Option<String>>> = Arc::new(Mutex::new(None));
+        let panic2 = Arc::clone(&panic_msg);
+        std::thread::spawn(move || {
+            let r = BufReader::new(stderr);
+            let mut expect_msg = false;
+            for line in r.lines() {
+                let Ok(line) = line else { return };
+                if expect_msg {
+                    expect_msg = false;
+                    let mut p = panic2.lock().unwrap();
+                    if let Some(m) = p.as_mut() {
+                        m.push_str(line.trim());
+                    }
+                }
+                if line.contains("panicked at") {
+                    let loc = line.rsplit("panicked at").next().unwrap_or("").trim().trim_end_matches(':');
+                    let loc = loc.rsplit('/').next().unwrap_or(loc);
+                    let mut p = panic2.lock().unwrap();
+                    if p.is_none() {
+                        *p = Some(format!("{loc}: "));
+                        expect_msg = true;
+                    }
+                }
+                let mut t = tail2.lock().unwrap();
+                if t.len() >= 12 {
+                    t.pop_front();
+                }
+                t.push_back(line);
+            }
+        });
+        let mut lsp = Lsp {
+            child,
+            stdin,
+            rx,
+            stderr_tail,
+            panic_msg,
+            next_id: 1,
+            next_doc: 0,
+            root: root.to_path_buf(),
+            root_uri: path_to_uri(root),
+            settings: None,
+            style: "spaced",
+            closed: Vec::new(),
+            triggers: Vec::new(),
+            requests: 0,
+        };
+        let folders: Vec<Value> = VENDOR
+            .iter()
+            .map(|v| json!({"uri": format!("{}/{v}", lsp.root_uri), "name": v}))
+            .collect();
+        let init = lsp
+            .request(
+                "initialize",
+                json!({
+                    "processId": null,
+                    "rootUri": null,
+                    "capabilities": {
+                        // pull diagnostics: didOpen then does not analyse + publish for every document
+                        "workspace": {"diagnostic": {"refreshSupport": true}, "configuration": true, "workspaceFolders": true},
+                        "textDocument": {"diagnostic": {}}
+                    },
+                    "workspaceFolders": folders,
+                }),
+            )
+            .map_err(|e| format!("initialize failed: {e:?}"))?;
+        let caps = &init["capabilities"];
+        if caps["documentFormattingProvider"] != json!(true) || caps["documentRangeFormattingProvider"] != json!(true) {
+            return Err(format!("server does not advertise formatting providers: {caps}"));
+        }
+        let ot = &caps["documentOnTypeFormattingProvider"];
+        if let Some(f) = ot["firstTriggerCharacter"].as_str() {
+            lsp.triggers.push(f.to_string());
+        }
+        for m in ot["moreTriggerCharacter"].as_array().cloned().unwrap_or_default() {
+            if let Some(s) = m.as_str() {
+                lsp.triggers.push(s.to_string());
+            }
+        }
+        if lsp.triggers.is_empty() {
+            return Err("server advertises no on-type formatting trigger characters".into());
+        }
+        lsp.notify("initialized", json!({}))?;
+        // the workspace folders (and their trust-lsp.toml) are loaded one after the other by a
+        // background task: wait until the profile of EVERY folder is observable (all three vendor
+        // profiles upper-case keywords when the client sends no settings)
+        let t0 = Instant::now();
+        let mut pending: Vec<u8> = (1..VENDOR.len() as u8).collect();
+        while !pending.is_empty() {
+            let v = pending[0];
+            let cfg = Cfg([0, 0, 0, 0, 0, 0, 0, v]);
+            let out = lsp.format_text(&cfg, "program p\nend_program\n").map_err(|e| format!("readiness probe: {e:?}"))?;
+            if out.starts_with("PROGRAM") {
+                pending.remove(0);
+                continue;
+            }
+            if t0.elapsed() > Duration::from_secs(60) {
+                return Err(format!("workspace configuration (trust-lsp.toml, vendor profile {}) never became effective", VENDOR[v as usize]));
+            }
+            std::thread::sleep(Duration::from_millis(20));
+        }
+        lsp.forget_closed();
+        Ok(lsp)
+    }
+
+    fn tail(&self) -> String {
+        let t = self.stderr_tail.lock().unwrap();
+        t.iter().cloned().collect::<Vec<_>>().join(" | ")
+    }
+
+    fn send(&mut self, v: &Value) -> Result<(), String> {
+        let body = serde_json::to_string(v).unwrap();
+        let r = write!(self.stdin, "Content-Length: {}\r\n\r\n{}", body.len(), body).and_then(|_| self.stdin.flush());
+        r.map_err(|e| format!("write to server: {e}"))
+    }
+
+    pub fn notify(&mut self, method: &str, params: Value) -> Result<(), String> {
+        self.send(&json!({"jsonrpc": "2.0", "method": method, "params": params}))
+    }
+
+    /// Sends a request without waiting for the answer; returns its id.
+    pub fn send_req(&mut self, method: &str, params: Value) -> Result<u64, LspFail> {
+        let id = self.next_id;
+        self.next_id += 1;
+        self.requests += 1;
+        if let Err(e) = self.send(&json!({"jsonrpc": "2.0", "id": id, "method": method, "params": params})) {
+            return Err(self.dead(&e));
+        }
+        Ok(id)
+    }
+
+    fn dead(&mut self, why: &str) -> LspFail {
+        // the stderr reader may lag behind: give it a moment (longer if the exit code says panic)
+        let t0 = Instant::now();
+        loop {
+            if let Some(p) = self.panic_msg.lock().unwrap().clone() {
+                if p.ends_with(": ") && t0.elapsed() < Duration::from_millis(500) {
+                    std::thread::sleep(Duration::from_millis(10));
+                    continue; // message line not read yet
+                }
+                return LspFail::Died(format!("panic: {p}"));
+            }
+            let exited_101 = matches!(self.child.try_wait(), Ok(Some(st)) if st.code() == Some(101));
+            if t0.elapsed() > Duration::from_millis(if exited_101 { 2000 } else { 150 }) {
+                break;
+            }
+            std::thread::sleep(Duration::from_millis(10));
+        }
+        LspFail::Died(format!("{why}; exit status {:?}; stderr: {}", self.child.try_wait(), self.tail()))
+    }
+
+    /// Waits for the answers to `ids` (sent in this order). Server→client requests arriving
+    /// meanwhile are answered so that the server never blocks; notifications are discarded.
+    /// The limit is per answer (no progress for REQ_TIMEOUT = hang). Answers received before a
+    /// failure are returned in `got`.
+    pub fn collect(&mut self, ids: &[u64], got: &mut Vec<Result<Value, (i64, String)>>) -> Result<(), LspFail> {
+        let mut slots: Vec<Option<Result<Value, (i64, String)>>> = vec![None; ids.len()];
+        let first = ids.first().copied().unwrap_or(0);
+        let mut missing = ids.len();
+        let mut deadline = Instant::now() + REQ_TIMEOUT;
+        let mut panic_seen: Option<Instant> = None;
+        let mut fail: Option<LspFail> = None;
+        while missing > 0 {
+            let left = deadline.saturating_duration_since(Instant::now()).min(Duration::from_millis(100));
+            match self.rx.recv_timeout(left) {
+                Ok(msg) => {
+                    if msg.get("method").is_some() {
+                        if let Some(rid) = msg.get("id") {
+                            let result = if msg["method"] == "workspace/configuration" {
+                                let n = msg["params"]["items"].as_array().map(|a| a.len()).unwrap_or(0);
+                                Value::Array(vec![Value::Null; n])
+                            } else {
+                                Value::Null
+                            };
+                            let _ = self.send(&json!({"jsonrpc": "2.0", "id": rid, "result": result}));
+                        }
+                        continue;
+                    }
+                    let Some(id) = msg.get("id").and_then(Value::as_u64) else { continue };
+                    // ids of one collect call are consecutive
+                    if id < first || (id - first) as usize >= ids.len() {
+                        continue;
+                    }
+                    let k = (id - first) as usize;
+                    if slots[k].is_none() {
+                        missing -= 1;
+                    }
+                    slots[k] = Some(match msg.get("error") {
+                        Some(err) => Err((err["code"].as_i64().unwrap_or(0), err["message"].as_str().unwrap_or("").to_string())),
+                        None => Ok(msg.get("result").cloned().unwrap_or(Value::Null)),
+                    });
+                    deadline = Instant::now() + REQ_TIMEOUT;
+                }
+                Err(mpsc::RecvTimeoutError::Timeout) => {
+                    if Instant::now() >= deadline {
+                        fail = Some(LspFail::Timeout);
+                        break;
+                    }
+                    // a panic of the request task leaves the process alive but deaf (the runtime
+                    // waits for its blocking stdin reader): do not wait the full limit
+                    if self.panic_msg.lock().unwrap().is_some() {
+                        let t = *panic_seen.get_or_insert_with(Instant::now);
+                        if t.elapsed() > Duration::from_millis(250) {
+                            fail = Some(self.dead("panic"));
+                            break;
+                        }
+                    }
+                }
+                Err(mpsc::RecvTimeoutError::Disconnected) => {
+                    fail = Some(self.dead("server closed its stdout"));
+                    break;
+                }
+            }
+        }
+        // answers in request order up to the first missing one
+        for sl in slots {
+            match sl {
+                Some(r) => got.push(r),
+                None => break,
+            }
+        }
+        match fail {
+            Some(f) => Err(f),
+            None => Ok(()),
+        }
+    }
+
+    /// One request, one answer.
+    pub fn request(&mut self, method: &str, params: Value) -> Result<Value, LspFail> {
+        let id = self.send_req(method, params)?;
+        let mut got = Vec::new();
+        self.collect(&[id], &mut got)?;
+        match got.pop() {
+            Some(Ok(v)) => Ok(v),
+            Some(Err((c, m))) => Err(LspFail::Rpc(c, m)),
+            None => Err(LspFail::Timeout),
+        }
+    }
+
+    fn set_cfg(&mut self, cfg: &Cfg) -> Result<(), String> {
+        let s = cfg.settings();
+        let key = format!("{s} {}", cfg.vendor());
+        if self.settings.as_deref() != Some(key.as_str()) {
+            self.notify("workspace/didChangeConfiguration", json!({ "settings": s }))?;
+            self.settings = Some(key);
+            // barrier + observation: an answered request sent after the notification (messages
+            // are taken up in order) — the new settings are in place before any document of the
+            // explorer is formatted. The probe also tells which spacing style is in effect for
+            // this (settings, vendor folder); the style is part of the cause signature of glued
+            // tokens (it is an input of the gluing decision) and is observed, not modelled.
+            self.next_doc += 1;
+            let uri = format!("{}/{}/probe{}.st", self.root_uri, cfg.vendor(), self.next_doc);
+            let probe = "x:=1+2;\n";
+            self.notify("textDocument/didOpen", json!({"textDocument": {"uri": uri, "languageId": "structured-text", "version": 1, "text": probe}}))?;
+            let r = self.request("textDocument/formatting", json!({"textDocument": {"uri": uri}, "options": cfg.options()}));
+            self.close(&uri);
+            let out = match r {
+                Ok(v) if v.is_null() => return Err("probe document unknown to the server".into()),
+                Ok(v) => Self::edits(v).ok().and_then(|e| apply_edits(probe, &e).ok()).unwrap_or_default(),
+                Err(e) => return Err(format!("probe request failed: {e:?}")),
+            };
+            self.style = if out.contains("x := 1 + 2;") {
+                "spaced"
+            } else if out.contains("x:=1+2;") {
+                "compact"
+            } else {
+                return Err(format!("probe `x:=1+2;` formatted as {out:?}: spacing style not recognisable"));
+            };
+        }
+        Ok(())
+    }
+
+    /// Opens a fresh document (fresh URI) in the workspace folder of the configuration's vendor.
+    pub fn open(&mut self, cfg: &Cfg, text: &str) -> Result<String, LspFail> {
+        self.set_cfg(cfg).map_err(LspFail::Died)?;
+        self.next_doc += 1;
+        let uri = format!("{}/{}/d{}.st", self.root_uri, cfg.vendor(), self.next_doc);
+        self.notify(
+            "textDocument/didOpen",
+            json!({"textDocument": {"uri": uri, "languageId": "structured-text", "version": 1, "text": text}}),
+        )
+        .map_err(LspFail::Died)?;
+        Ok(uri)
+    }
+
+    pub fn close(&mut self, uri: &str) {
+        let _ = self.notify("textDocument/didClose", json!({"textDocument": {"uri": uri}}));
+        self.closed.push(uri.to_string());
+        if self.closed.len() >= 64 {
+            self.forget_closed();
+        }
+    }
+
+    /// The server keeps closed documents in its project (every later didOpen then gets slower and
+    /// slower): report the closed scratch documents as deleted files, which removes them. A later
+    /// request for such a URI answers `null`.
+    pub fn forget_closed(&mut self) {
+        if self.closed.is_empty() {
+            return;
+        }
+        let changes: Vec<Value> = self.closed.drain(..).map(|u| json!({"uri": u, "type": 3})).collect();
+        let _ = self.notify("workspace/didChangeWatchedFiles", json!({ "changes": changes }));
+    }
+
+    fn edits(v: Value) -> Result<Vec<Edit>, LspFail> {
+        let Some(arr) = v.as_array() else {
+            // `null`: whole-document formatting answers null only for a document the server does
+            // not know (callers treat that as a protocol error); range / on-type may answer null
+            return if v.is_null() { Ok(Vec::new()) } else { Err(LspFail::Rpc(0, format!("result is not an edit list: {v}"))) };
+        };
+        let mut out = Vec::new();
+        for e in arr {
+            let g = |p: &Value| p.as_u64().map(|x| x as u32);
+            let (Some(sl), Some(sc), Some(el), Some(ec), Some(t)) = (
+                g(&e["range"]["start"]["line"]),
+                g(&e["range"]["start"]["character"]),
+                g(&e["range"]["end"]["line"]),
+                g(&e["range"]["end"]["character"]),
+                e["newText"].as_str(),
+            ) else {
+                return Err(LspFail::Rpc(0, format!("malformed TextEdit: {e}")));
+            };
+            out.push(Edit { sl, sc, el, ec, text: t.to_string() });
+        }
+        Ok(out)
+    }
+
+    pub fn format(&mut self, uri: &str, cfg: &Cfg) -> Result<Vec<Edit>, LspFail> {
+        let r = self.request("textDocument/formatting", json!({"textDocument": {"uri": uri}, "options": cfg.options()}))?;
+        if r.is_null() {
+            return Err(LspFail::Protocol("formatting answered null: the document is unknown to the server".into()));
+        }
+        Self::edits(r)
+    }
+
+    pub fn range(&mut self, uri: &str, cfg: &Cfg, s: (u32, u32), e: (u32, u32)) -> Result<Vec<Edit>, LspFail> {
+        let r = self.request(
+            "textDocument/rangeFormatting",
+            json!({"textDocument": {"uri": uri}, "options": cfg.options(),
+                   "range": {"start": {"line": s.0, "character": s.1}, "end": {"line": e.0, "character": e.1}}}),
+        )?;
+        Self::edits(r)
+    }
+
+    pub fn on_type(&mut self, uri: &str, cfg: &Cfg, pos: (u32, u32), ch: &str) -> Result<Vec<Edit>, LspFail> {
+        let r = self.request(
+            "textDocument/onTypeFormatting",
+            json!({"textDocument": {"uri": uri}, "options": cfg.options(),
+                   "position": {"line": pos.0, "character": pos.1}, "ch": ch}),
+        )?;
+        Self::edits(r)
+    }
+
+    /// open + formatting + apply + close
+    pub fn format_text(&mut self, cfg: &Cfg, text: &str) -> Result<String, LspFail> {
+        let uri = self.open(cfg, text)?;
+        let e = self.format(&uri, cfg)?;
+        self.close(&uri);
+        apply_edits(text, &e).map_err(|m| LspFail::Rpc(0, m))
+    }
+}
+
+impl Drop for Lsp {
+    fn drop(&mut self) {
+        let _ = self.child.kill();
+        let _ = self.child.wait();
+        let _ = std::fs::remove_dir_all(&self.root);
+    }
+}
+
+/// A pool of long-lived servers (one per worker thread in practice). Replacement servers for
+/// crashed ones are spawned ahead of time by background threads.
+pub struct Pool {
+    base: PathBuf,
+    free: Mutex<Vec<Lsp>>,
+    spares: Mutex<Vec<Lsp>>,
+    n: AtomicU64,
+    stop: std::sync::atomic::AtomicBool,
+    pub requests: AtomicU64,
+    pub spawned: AtomicU64,
+    pub crashed: AtomicU64,
+}
+
+impl Pool {
+    pub fn new(base: PathBuf) -> Arc<Pool> {
+        Arc::new(Pool {
+            base,
+            free: Mutex::new(Vec::new()),
+            spares: Mutex::new(Vec::new()),
+            n: AtomicU64::new(0),
+            stop: std::sync::atomic::AtomicBool::new(false),
+            requests: AtomicU64::new(0),
+            spawned: AtomicU64::new(0),
+            crashed: AtomicU64::new(0),
+        })
+    }
+    fn spawn_one(&self) -> Result<Lsp, String> {
+        let k = self.n.fetch_add(1, Ordering::Relaxed);
+        self.spawned.fetch_add(1, Ordering::Relaxed);
+        Lsp::spawn(&self.base.join(format!("srv{k}")))
+    }
+    /// Keeps `want` spare servers ready while servers are crashing (started on the first crash).
+    pub fn start_spawners(self: &Arc<Pool>, threads: usize, want: usize) -> Vec<std::thread::JoinHandle<()>> {
+        (0..threads)
+            .map(|_| {
+                let p = Arc::clone(self);
+                std::thread::spawn(move || {
+                    while !p.stop.load(Ordering::Relaxed) {
+                        if p.crashed.load(Ordering::Relaxed) > 0 && p.spares.lock().unwrap().len() < want {
+                            if let Ok(l) = p.spawn_one() {
+                                p.spares.lock().unwrap().push(l);
+                            }
+                        } else {
+                            std::thread::sleep(Duration::from_millis(10));
+                        }
+                    }
+                })
+            })
+            .collect()
+    }
+    pub fn shutdown(&self, handles: Vec<std::thread::JoinHandle<()>>) {
+        self.stop.store(true, Ordering::Relaxed);
+        for h in handles {
+            let _ = h.join();
+        }
+        self.spares.lock().unwrap().clear();
+    }
+    pub fn take(&self) -> Result<Lsp, String> {
+        if let Some(l) = self.free.lock().unwrap().pop() {
+            return Ok(l);
+        }
+        if let Some(l) = self.spares.lock().unwrap().pop() {
+            return Ok(l);
+        }
+        self.spawn_one()
+    }
+    pub fn give(&self, mut l: Lsp) {
+        self.requests.fetch_add(l.requests, Ordering::Relaxed);
+        l.requests = 0;
+        self.free.lock().unwrap().push(l);
+    }
+    pub fn discard(&self, l: Lsp) {
+        self.requests.fetch_add(l.requests, Ordering::Relaxed);
+        self.crashed.fetch_add(1, Ordering::Relaxed);
+        drop(l);
+    }
+}
+
+// ------------------------------------------------------------------------------------------------
+// text helpers: LSP positions (UTF-16), edits
+// ------------------------------------------------------------------------------------------------
+
+/// (start, end-without-line-terminator) of every line; lines are separated by `\n`.
+fn line_spans(text: &str) -> Vec<(usize, usize)> {
+    let mut out = Vec::new();
+    let mut start = 0;
+    for (i, b) in text.bytes().enumerate() {
+        if b == b'\n' {
+            let mut end = i;
+            if end > start && text.as_bytes()[end - 1] == b'\r' {
+                end -= 1;
+            }
+            out.push((start, end));
+            start = i + 1;
+        }
+    }
+    out.push((start, text.len()));
+    out
+}
+
+fn utf16_len(s: &str) -> u32 {
+    s.chars().map(|c| c.len_utf16() as u32).sum()
+}
+
+/// LSP position → byte offset; a character beyond the line end means the line end, a line beyond
+/// the last line means the end of the text (LSP 3.17 §Position).
+fn pos_to_offset(text: &str, spans: &[(usize, usize)], line: u32, ch: u32) -> usize {
+    let Some(&(s, e)) = spans.get(line as usize) else { return text.len() };
+    let mut units = 0u32;
+    for (i, c) in text[s..e].char_indices() {
+        if units >= ch {
+            return s + i;
+        }
+        units += c.len_utf16() as u32;
+    }
+    e
+}
+
+pub fn apply_edits(text: &str, edits: &[Edit]) -> Result<String, String> {
+    let spans = line_spans(text);
+    let mut v: Vec<(usize, usize, &str)> = edits
+        .iter()
+        .map(|e| (pos_to_offset(text, &spans, e.sl, e.sc), pos_to_offset(text, &spans, e.el, e.ec), e.text.as_str()))
+        .collect();
+    v.sort_by_key(|x| (x.0, x.1));
+    let mut out = String::with_capacity(text.len() + 64);
+    let mut pos = 0usize;
+    for (s, e, t) in v {
+        if s > e || s < pos {
+            return Err(format!("overlapping or inverted edits at byte {s}..{e}"));
+        }
+        out.push_str(&text[pos..s]);
+        out.push_str(t);
+        pos = e;
+    }
+    out.push_str(&text[pos..]);
+    Ok(out)
+}
+
+pub fn hash64(s: &str) -> u64 {
+    let mut h: u64 = 0xcbf29ce484222325;
+    for b in s.bytes() {
+        h ^= b as u64;
+        h = h.wrapping_mul(0x100000001b3);
+    }
+    h
+}
+
+fn clip(s: &str, n: usize) -> String {
+    let mut out: String = s.chars().take(n).collect();
+    if s.chars().count() > n {
+        out.push('…');
+    }
+    out
+}
+
+// ------------------------------------------------------------------------------------------------
+// oracle
+// ------------------------------------------------------------------------------------------------
+
+#[derive(Clone, Debug)]
+pub struct View {
+    /// non-trivia tokens
+    toks: Vec<(TokenKind, String)>,
+    /// comments, pragmas, string literals in order: (kind, normalised text)
+    specials: Vec<(TokenKind, String)>,
+    has_error: bool,
+}
+
+fn norm_multiline(s: &str) -> String {
+    s.split('\n').map(|l| l.trim()).collect::<Vec<_>>().join("\n")
+}
+
+pub fn view(text: &str) -> View {
+    let mut v = View { toks: Vec::new(), specials: Vec::new(), has_error: false };
+    for t in lex(text) {
+        let s = &text[usize::from(t.range.start())..usize::from(t.range.end())];
+        match t.kind {
+            TokenKind::Whitespace => {}
+            TokenKind::LineComment => v.specials.push((t.kind, s.trim_end().to_string())),
+            TokenKind::BlockComment | TokenKind::Pragma => v.specials.push((t.kind, norm_multiline(s))),
+            k => {
+                if k == TokenKind::Error {
+                    v.has_error = true;
+                    if s.contains('\n') {
+                        // an unterminated comment: one Error token up to the end of the text; what
+                        // "the same token" means for it is not derivable from the statement, its
+                        // content is not compared (only that it is still there, in place)
+                        v.toks.push((k, "<unterminated comment>".to_string()));
+                        continue;
+                    }
+                }
+                if matches!(k, TokenKind::StringLiteral | TokenKind::WideStringLiteral) {
+                    v.specials.push((k, s.to_string()));
+                }
+                v.toks.push((k, s.to_string()));
+            }
+        }
+    }
+    v
+}
+
+fn tok_eq(a: &(TokenKind, String), b: &(TokenKind, String)) -> bool {
+    if a.1 == b.1 {
+        return true;
+    }
+    a.0.is_keyword() && b.0.is_keyword() && a.1.eq_ignore_ascii_case(&b.1)
+}
+
+fn kind_name(k: TokenKind) -> String {
+    if k.is_keyword() {
+        "Kw".to_string()
+    } else {
+        format!("{k:?}")
+    }
+}
+
+/// A difference between the original and the produced text: (clause, cause feature, description)
+pub struct Diff {
+    clause: &'static str,
+    feature: String,
+    what: String,
+}
+
+/// tokens clause; `None` = same sequence
+fn diff_tokens(a: &View, b: &View) -> Option<Diff> {
+    let n = a.toks.len().min(b.toks.len());
+    let mut i = 0;
+    while i < n && tok_eq(&a.toks[i], &b.toks[i]) {
+        i += 1;
+    }
+    if i == a.toks.len() && i == b.toks.len() {
+        return None;
+    }
+    let ctx = |v: &View| {
+        let lo = i.saturating_sub(2);
+        let hi = (i + 3).min(v.toks.len());
+        v.toks[lo..hi].iter().map(|t| clip(&t.1, 24)).collect::<Vec<_>>().join(" ")
+    };
+    // cause feature: what happened to the first differing token
+    let lower = |s: &str| s.to_ascii_lowercase();
+    let feature = match (a.toks.get(i), b.toks.get(i)) {
+        (Some(x), y) => {
+            let cat = a.toks.get(i + 1).map(|n| lower(&format!("{}{}", x.1, n.1)));
+            let opener = cat.as_ref().is_some_and(|c| c.starts_with("//") || c.starts_with("(*") || c.starts_with("/*"));
+            match y {
+                // cause tuple of a glued pair: (left token kind, what the pair turned into); the
+                // spacing style in effect is added by the caller
+                _ if opener => format!("glue:{}->comment", kind_name(x.0)),
+                Some(y) if cat.as_ref().is_some_and(|c| y.1.len() > x.1.len() && lower(&y.1).starts_with(&lower(&x.1)) && (lower(&y.1).starts_with(c.as_str()) || c.starts_with(&lower(&y.1)))) => {
+                    format!("glue:{}->{}", kind_name(x.0), kind_name(y.0))
+                }
+                Some(y) if x.1.len() > y.1.len() && lower(&x.1).starts_with(&lower(&y.1)) => format!("split:{}", kind_name(x.0)),
+                Some(y) if a.toks.len() == b.toks.len() => format!("changed:{}->{}", kind_name(x.0), kind_name(y.0)),
+                Some(_) if a.toks.len() < b.toks.len() => "added".to_string(),
+                _ => format!("lost:{}", kind_name(x.0)),
+            }
+        }
+        (None, Some(y)) => format!("added:{}", kind_name(y.0)),
+        (None, None) => unreachable!(),
+    };
+    Some(Diff {
+        clause: "tokens",
+        feature,
+        what: format!(
+            "token sequence differs at token #{i}: original [… {} …] ({} tokens) vs produced [… {} …] ({} tokens)",
+            ctx(a),
+            a.toks.len(),
+            ctx(b),
+            b.toks.len()
+        ),
+    })
+}
+
+fn diff_specials(a: &View, b: &View) -> Option<Diff> {
+    if a.specials == b.specials {
+        return None;
+    }
+    let n = a.specials.len().min(b.specials.len());
+    let mut i = 0;
+    while i < n && a.specials[i] == b.specials[i] {
+        i += 1;
+    }
+    let (feature, what) = match (a.specials.get(i), b.specials.get(i)) {
+        (Some(x), Some(y)) if a.specials.len() == b.specials.len() => (
+            format!("changed:{:?}", x.0),
+            format!("{:?} {:?} became {:?} {:?}", x.0, clip(&x.1, 60), y.0, clip(&y.1, 60)),
+        ),
+        (Some(x), _) if a.specials.len() > b.specials.len() => {
+            (format!("lost:{:?}", x.0), format!("{:?} {:?} is missing from the produced text", x.0, clip(&x.1, 60)))
+        }
+        (_, Some(y)) => (format!("added:{:?}", y.0), format!("produced text has an extra {:?} {:?}", y.0, clip(&y.1, 60))),
+        _ => ("changed".to_string(), "comment/pragma/string sequence differs".to_string()),
+    };
+    Some(Diff { clause: "specials", feature, what: format!("comments/pragmas/strings differ at #{i}: {what}") })
+}
+
+/// All clauses that compare an original text with a produced text.
+fn compare(orig: &View, produced: &str) -> Vec<Diff> {
+    let p = view(produced);
+    let mut out = Vec::new();
+    let td = diff_tokens(orig, &p);
+    let tokens_ok = td.is_none();
+    out.extend(td);
+    // the specials clause is only meaningful when the token clause holds and the input lexes
+    // without Error tokens (an Error token can be an unterminated comment / string)
+    if tokens_ok && !orig.has_error {
+        out.extend(diff_specials(orig, &p));
+    }
+    out
+}
+
+fn ws_class(a: &str, b: &str) -> &'static str {
+    let la: Vec<&str> = a.split('\n').collect();
+    let lb: Vec<&str> = b.split('\n').collect();
+    if la.len() != lb.len() {
+        return "linecount";
+    }
+    let strip = |s: &str| s.chars().filter(|c| !c.is_whitespace()).collect::<String>();
+    for (x, y) in la.iter().zip(&lb) {
+        if x != y {
+            if x.trim_start() == y.trim_start() {
+                return "indent";
+            }
+            if strip(x) == strip(y) {
+                return "spacing";
+            }
+            return "content";
+        }
+    }
+    "same"
+}
+
+/// `valid`: parses without errors; `synerr`: lexes cleanly but has parse errors; `lexerr`: Error tokens.
+/// Inputs with a pragma that spans lines are a stratum of their own (`+mlpragma`).
+fn stratum(text: &str, v: &View) -> &'static str {
+    let ml = v.specials.iter().any(|(k, s)| *k == TokenKind::Pragma && s.contains('\n'));
+    if v.has_error {
+        if ml { "lexerr+mlpragma" } else { "lexerr" }
+    } else if parse(text).ok() {
+        if ml { "valid+mlpragma" } else { "valid" }
+    } else if ml {
+        "synerr+mlpragma"
+    } else {
+        "synerr"
+    }
+}
+
+fn fail_violation(seam: &str, op: &str, f: &LspFail, case: Value) -> Violation {
+    let (kind, detail) = match f {
+        LspFail::Died(m) if m.starts_with("panic: ") => {
+            // message only (the location is inside std for allocation failures and differs by path)
+            let msg = m["panic: ".len()..].splitn(2, ": ").nth(1).unwrap_or(m);
+            let norm: String = msg.chars().map(|c| if c.is_ascii_digit() { '#' } else { c }).collect();
+            return Violation {
+                signature: format!("C15/crash/{seam}/{op}/panic:{}", clip(&norm, 80)),
+                what: format!("the language server panicked while answering {op}: {}", clip(m, 300)),
+                case,
+            };
+        }
+        LspFail::Died(m) => ("died", m.clone()),
+        LspFail::Protocol(m) => ("protocol", m.clone()),
+        LspFail::Timeout => ("hang", format!("no answer within {} s", REQ_TIMEOUT.as_secs())),
+        LspFail::Rpc(c, m) => ("rpc-error", format!("code {c}: {m}")),
+    };
+    Violation {
+        signature: format!("C15/crash/{seam}/{op}/{kind}"),
+        what: format!("{op} did not produce a result ({kind}): {}", clip(&detail, 300)),
+        case,
+    }
+}
+
+// ------------------------------------------------------------------------------------------------
+// one bundle = one text under one configuration
+// ------------------------------------------------------------------------------------------------
+
+#[derive(Clone, Copy, PartialEq, Eq, Debug)]
+pub enum Extra {
+    None,
+    /// every line interval [a,b] + every line end x trigger character
+    RangesAndOnType { alt_range_form: bool },
+    /// only on-type positions
+    OnType,
+}
+
+#[derive(Default)]
+pub struct Stats {
+    bundles: u64,
+    changed: u64,
+    wrapped: u64,
+    range_reqs: u64,
+    range_nonempty: u64,
+    range_expanded: u64,
+    ontype_reqs: u64,
+    ontype_nonempty: u64,
+    idem_checks: u64,
+    lexerr: u64,
+    valid: u64,
+    errors: u64,
+    hashes: Vec<u64>,
+}
+
+impl Stats {
+    fn merge(&mut self, o: Stats) {
+        self.bundles += o.bundles;
+        self.changed += o.changed;
+        self.wrapped += o.wrapped;
+        self.range_reqs += o.range_reqs;
+        self.range_nonempty += o.range_nonempty;
+        self.range_expanded += o.range_expanded;
+        self.ontype_reqs += o.ontype_reqs;
+        self.ontype_nonempty += o.ontype_nonempty;
+        self.idem_checks += o.idem_checks;
+        self.lexerr += o.lexerr;
+        self.valid += o.valid;
+        self.errors += o.errors;
+        self.hashes.extend(o.hashes);
+    }
+}
+
+pub struct TextInfo {
+    text: String,
+    view: View,
+    stratum: &'static str,
+}
+
+impl TextInfo {
+    fn new(text: String) -> TextInfo {
+        let v = view(&text);
+        let s = stratum(&text, &v);
+        TextInfo { text, view: v, stratum: s }
+    }
+}
+
+fn mk_case(seam: &str, op: &str, family: &str, text: &str, cfg: &Cfg, extra: Value) -> Value {
+    let mut c = json!({"seam": seam, "op": op, "family": family, "text": text, "cfg": cfg.to_json()});
+    if let Some(m) = extra.as_object() {
+        for (k, v) in m {
+            c[k] = v.clone();
+        }
+    }
+    c
+}
+
+/// Oracle for a formatting result `f1` of `text` (tokens + specials), with signature.
+fn check_produced(seam: &str, op: &str, family: &str, ti: &TextInfo, produced: &str, style: &str, case: &Value, out: &mut Vec<Violation>) {
+    for mut d in compare(&ti.view, produced) {
+        if d.feature.starts_with("glue:") && !style.is_empty() {
+            d.feature = format!("{style}/{}", d.feature);
+        }
+        out.push(Violation {
+            // in the multi-line-pragma stratum the symptom depends on what follows the pragma
+            signature: format!("C15/{}/{seam}/{op}/{}/{}", d.clause, ti.stratum, if ti.stratum.ends_with("+mlpragma") { "*" } else { d.feature.as_str() }),
+            what: format!("{op} ({seam}, family {family}, input stratum {}): {}", ti.stratum, d.what),
+            case: case.clone(),
+        });
+    }
+}
+
+#[derive(Clone, Debug)]
+enum Kind {
+    Format,
+    Range { s: (u32, u32), e: (u32, u32), a: u32, b: u32 },
+    OnType { pos: (u32, u32), ch: String },
+    Idem,
+}
+
+struct Pend {
+    ti: usize,
+    kind: Kind,
+}
+
+fn pend_case(family: &str, ti: &TextInfo, cfg: &Cfg, kind: &Kind) -> (Value, &'static str) {
+    match kind {
+        Kind::Format => (mk_case("lsp", "format", family, &ti.text, cfg, json!({})), "format"),
+        Kind::Idem => (mk_case("lsp", "idem", family, &ti.text, cfg, json!({})), "idem"),
+        Kind::Range { s, e, .. } => (mk_case("lsp", "range", family, &ti.text, cfg, json!({"range": [s.0, s.1, e.0, e.1]})), "range"),
+        Kind::OnType { pos, ch } => (mk_case("lsp", "ontype", family, &ti.text, cfg, json!({"position": [pos.0, pos.1], "ch": ch})), "ontype"),
+    }
+}
+
+fn request_count(ti: &TextInfo, extra: Extra, triggers: usize) -> usize {
+    let n = ti.text.matches('\n').count() + 1;
+    match extra {
+        Extra::None => 2,
+        Extra::OnType => 2 + n * triggers,
+        Extra::RangesAndOnType { alt_range_form } => 2 + n * triggers + n * (n + 1) / 2 * if alt_range_form { 2 } else { 1 },
+    }
+}
+
+/// Failure of a window: the server is unusable afterwards.
+struct WinErr {
+    fail: LspFail,
+    /// strict mode: the request that was not answered
+    culprit: Option<(Value, &'static str)>,
+    /// index (in the window) of the first text with an unanswered request
+    first: usize,
+}
+
+#[derive(Default, Clone)]
+struct TextState {
+    f1: Option<String>,
+    changed: bool,
+    wrapped: bool,
+    clean: bool,
+}
+
+/// Runs every LSP check of a window of texts under one configuration. Requests of a window are
+/// pipelined (`strict` = false) or sent one at a time (`strict` = true, used to attribute a crash
+/// and by replay). `Err((failure, culprit))`: the server is unusable afterwards; in strict mode
+/// `culprit` is the request that was not answered.
+#[allow(clippy::too_many_arguments)]
+fn eval_window(
+    lsp: &mut Lsp,
+    family: &str,
+    texts: &[TextInfo],
+    cfg: &Cfg,
+    extra: Extra,
+    strict: bool,
+    st: &mut Stats,
+    out: &mut Vec<Violation>,
+) -> Result<(), WinErr> {
+    let mut lst = Stats::default();
+    let mut lout: Vec<Violation> = Vec::new();
+    let mut pend: Vec<Pend> = Vec::new();
+    let mut ids: Vec<u64> = Vec::new();
+    let mut answers: Vec<Result<Value, (i64, String)>> = Vec::new();
+    let triggers = lsp.triggers.clone();
+    lsp.set_cfg(cfg).map_err(|e| WinErr { fail: LspFail::Protocol(e), culprit: None, first: 0 })?;
+    let style = lsp.style;
+
+    // one request: send (and in strict mode wait for) it
+    fn fire(
+        lsp: &mut Lsp,
+        strict: bool,
+        method: &str,
+        params: Value,
+        p: Pend,
+        family: &str,
+        texts: &[TextInfo],
+        cfg: &Cfg,
+        pend: &mut Vec<Pend>,
+        ids: &mut Vec<u64>,
+        answers: &mut Vec<Result<Value, (i64, String)>>,
+    ) -> Result<(), WinErr> {
+        let culprit = |p: &Pend| Some(pend_case(family, &texts[p.ti], cfg, &p.kind));
+        let id = match lsp.send_req(method, params) {
+            Ok(id) => id,
+            Err(f) => return Err(WinErr { fail: f, culprit: if strict { culprit(&p) } else { None }, first: p.ti }),
+        };
+        ids.push(id);
+        if strict {
+            if let Err(f) = lsp.collect(&[id], answers) {
+                return Err(WinErr { fail: f, culprit: culprit(&p), first: p.ti });
+            }
+        }
+        pend.push(p);
+        Ok(())
+    }
+
+    // ---- phase A: formatting (+ every range, + every on-type position) of every text
+    for (k, ti) in texts.iter().enumerate() {
+        let text = ti.text.as_str();
+        let uri = lsp.open(cfg, text).map_err(|f| WinErr { fail: f, culprit: None, first: k })?;
+        let opts = cfg.options();
+        fire(lsp, strict, "textDocument/formatting", json!({"textDocument": {"uri": uri}, "options": opts}), Pend { ti: k, kind: Kind::Format }, family, texts, cfg, &mut pend, &mut ids, &mut answers)?;
+        if extra != Extra::None {
+            let spans = line_spans(text);
+            let nlines = spans.len() as u32;
+            let len16 = |l: u32| utf16_len(&text[spans[l as usize].0..spans[l as usize].1]);
+            if let Extra::RangesAndOnType { alt_range_form } = extra {
+                for a in 0..nlines {
+                    for b in a..nlines {
+                        let mut forms = vec![((a, 0), (b, len16(b)))];
+                        if alt_range_form && b + 1 < nlines {
+                            forms.push(((a, 0), (b + 1, 0)));
+                        }
+                        for (s, e) in forms {
+                            fire(
+                                lsp,
+                                strict,
+                                "textDocument/rangeFormatting",
+                                json!({"textDocument": {"uri": uri}, "options": opts,
+                                       "range": {"start": {"line": s.0, "character": s.1}, "end": {"line": e.0, "character": e.1}}}),
+                                Pend { ti: k, kind: Kind::Range { s, e, a, b } },
+                                family, texts, cfg, &mut pend, &mut ids, &mut answers,
+                            )?;
+                        }
+                    }
+                }
+            }
+            for l in 0..nlines {
+                for ch in &triggers {
+                    let pos = (l, len16(l));
+                    fire(
+                        lsp,
+                        strict,
+                        "textDocument/onTypeFormatting",
+                        json!({"textDocument": {"uri": uri}, "options": opts, "position": {"line": pos.0, "character": pos.1}, "ch": ch}),
+                        Pend { ti: k, kind: Kind::OnType { pos, ch: ch.clone() } },
+                        family, texts, cfg, &mut pend, &mut ids, &mut answers,
+                    )?;
+                }
+            }
+        }
+        lsp.close(&uri);
+    }
+    if !strict {
+        if let Err(f) = lsp.collect(&ids, &mut answers) {
+            let first = pend.get(answers.len()).map(|p| p.ti).unwrap_or(0);
+            return Err(WinErr { fail: f, culprit: None, first });
+        }
+    }
+
+    let mut state: Vec<TextState> = vec![TextState::default(); texts.len()];
+    for (p, ans) in pend.iter().zip(answers.drain(..)) {
+        let ti = &texts[p.ti];
+        let (case, op) = pend_case(family, ti, cfg, &p.kind);
+        let v = match ans {
+            Ok(v) => v,
+            Err((c, m)) => {
+                lout.push(fail_violation("lsp", op, &LspFail::Rpc(c, m), case));
+                continue;
+            }
+        };
+        if v.is_null() && matches!(p.kind, Kind::Format) {
+            return Err(WinErr { fail: LspFail::Protocol("formatting answered null: a document sent with didOpen is unknown to the server".into()), culprit: None, first: 0 });
+        }
+        let edits = match Lsp::edits(v) {
+            Ok(e) => e,
+            Err(f) => {
+                lout.push(fail_violation("lsp", op, &f, case));
+                continue;
+            }
+        };
+        match &p.kind {
+            Kind::Format => {
+                lst.bundles += 1;
+                match ti.stratum {
+                    "lexerr" | "lexerr+mlpragma" => lst.lexerr += 1,
+                    "valid" | "valid+mlpragma" => lst.valid += 1,
+                    _ => {}
+                }
+                match apply_edits(&ti.text, &edits) {
+                    Ok(f1) => {
+                        let s = &mut state[p.ti];
+                        s.changed = f1 != ti.text;
+                        s.wrapped = f1.matches('\n').count() != ti.text.matches('\n').count();
+                        s.clean = true;
+                        if s.changed {
+                            lst.changed += 1;
+                            lst.hashes.push(hash64(&f1) ^ hash64(&cfg.short()).rotate_left(17));
+                            let before = lout.len();
+                            check_produced("lsp", "format", family, ti, &f1, style, &case, &mut lout);
+                            s.clean = lout.len() == before;
+                        }
+                        if s.wrapped {
+                            lst.wrapped += 1;
+                        }
+                        s.f1 = Some(f1);
+                    }
+                    Err(m) => lout.push(Violation { signature: "C15/edits/lsp/format/malformed".into(), what: m, case }),
+                }
+            }
+            Kind::Range { a, b, .. } => {
+                lst.range_reqs += 1;
+                if !edits.is_empty() {
+                    lst.range_nonempty += 1;
+                    if edits.iter().any(|x| x.sl < *a || x.el > *b + 1) {
+                        lst.range_expanded += 1;
+                    }
+                }
+                // a (text, cfg) whose whole-document pass already breaks the program is reported by
+                // the format clause; the partial edits are cut out of that same result
+                if state[p.ti].clean {
+                    let lc = if state[p.ti].wrapped { "linecount-changed" } else { "linecount-same" };
+                    check_partial("range", family, ti, &edits, lc, &case, &mut lout);
+                }
+            }
+            Kind::OnType { .. } => {
+                lst.ontype_reqs += 1;
+                if !edits.is_empty() {
+                    lst.ontype_nonempty += 1;
+                }
+                if state[p.ti].clean {
+                    let lc = if state[p.ti].wrapped { "linecount-changed" } else { "linecount-same" };
+                    check_partial("ontype", family, ti, &edits, lc, &case, &mut lout);
+                }
+            }
+            Kind::Idem => {}
+        }
+    }
+
+    // ---- phase B: idempotence. Only where the first pass kept the program (a first pass that
+    // already changed the tokens is reported by the tokens clause; its second pass says nothing
+    // new) and the input has no lexer Error tokens (see module comment).
+    pend.clear();
+    ids.clear();
+    for (k, ti) in texts.iter().enumerate() {
+        let s = &state[k];
+        if !(s.changed && s.clean && !ti.view.has_error) {
+            continue;
+        }
+        let f1 = s.f1.as_deref().unwrap();
+        let uri = lsp.open(cfg, f1).map_err(|f| WinErr { fail: f, culprit: None, first: k })?;
+        fire(lsp, strict, "textDocument/formatting", json!({"textDocument": {"uri": uri}, "options": cfg.options()}), Pend { ti: k, kind: Kind::Idem }, family, texts, cfg, &mut pend, &mut ids, &mut answers)?;
+        lsp.close(&uri);
+    }
+    if !strict {
+        if let Err(f) = lsp.collect(&ids, &mut answers) {
+            let first = pend.get(answers.len()).map(|p| p.ti).unwrap_or(0);
+            return Err(WinErr { fail: f, culprit: None, first });
+        }
+    }
+    for (p, ans) in pend.iter().zip(answers.drain(..)) {
+        let ti = &texts[p.ti];
+        let (case, op) = pend_case(family, ti, cfg, &p.kind);
+        lst.idem_checks += 1;
+        let f1 = state[p.ti].f1.as_deref().unwrap();
+        let v = match ans {
+            Ok(v) => v,
+            Err((c, m)) => {
+                lout.push(fail_violation("lsp", op, &LspFail::Rpc(c, m), case));
+                continue;
+            }
+        };
+        if v.is_null() {
+            return Err(WinErr { fail: LspFail::Protocol("formatting answered null: a document sent with didOpen is unknown to the server".into()), culprit: None, first: 0 });
+        }
+        match Lsp::edits(v).map_err(|_| "malformed edit list".to_string()).and_then(|e| apply_edits(f1, &e)) {
+            Ok(f2) => {
+                if f2 != f1 {
+                    lout.push(idem_violation("lsp", family, ti, f1, &f2, state[p.ti].wrapped, case));
+                }
+            }
+            Err(m) => lout.push(Violation { signature: "C15/edits/lsp/idem/malformed".into(), what: m, case }),
+        }
+    }
+    lsp.forget_closed();
+    st.merge(lst);
+    out.extend(lout);
+    Ok(())
+}
+
+/// Runs all texts of a job. Windows are pipelined; when the server crashes or hangs inside a
+/// window, the texts answered so far are re-run (their idempotence pass is still missing), the
+/// next few texts are run one at a time with one request in flight on a fresh server (the culprit
+/// is the first unanswered request or one of the three after it: the server polls up to four
+/// requests before it writes an answer), and the rest continues pipelined. After two crashes a job
+/// continues one text at a time (one server lost per crash instead of two).
+fn eval_job(pool: &Pool, lsp: &mut Option<Lsp>, job: &Job, st: &mut Stats, out: &mut Vec<Violation>) -> Result<(), String> {
+    fn server<'l>(pool: &Pool, lsp: &'l mut Option<Lsp>) -> Result<&'l mut Lsp, String> {
+        if lsp.is_none() {
+            *lsp = Some(pool.take()?);
+        }
+        Ok(lsp.as_mut().unwrap())
+    }
+    fn kill(pool: &Pool, lsp: &mut Option<Lsp>) {
+        if let Some(l) = lsp.take() {
+            pool.discard(l);
+        }
+    }
+    fn single(pool: &Pool, lsp: &mut Option<Lsp>, job: &Job, ti: &[TextInfo], crashes: &mut u32, st: &mut Stats, out: &mut Vec<Violation>) -> Result<(), String> {
+        match eval_window(server(pool, lsp)?, job.family, ti, &job.cfg, job.extra, true, st, out) {
+            Ok(()) => Ok(()),
+            Err(WinErr { fail: LspFail::Protocol(m), .. }) => Err(m),
+            Err(e) => {
+                *crashes += 1;
+                let (case, op) = e.culprit.unwrap_or_else(|| (mk_case("lsp", "open", job.family, &ti[0].text, &job.cfg, json!({})), "open"));
+                out.push(fail_violation("lsp", op, &e.fail, case));
+                kill(pool, lsp);
+                Ok(())
+            }
+        }
+    }
+    fn many(pool: &Pool, lsp: &mut Option<Lsp>, job: &Job, texts: &[TextInfo], crashes: &mut u32, st: &mut Stats, out: &mut Vec<Violation>) -> Result<(), String> {
+        if texts.is_empty() {
+            return Ok(());
+        }
+        if *crashes >= 2 || texts.len() == 1 {
+            for k in 0..texts.len() {
+                single(pool, lsp, job, &texts[k..k + 1], crashes, st, out)?;
+            }
+            return Ok(());
+        }
+        match eval_window(server(pool, lsp)?, job.family, texts, &job.cfg, job.extra, false, st, out) {
+            Ok(()) => Ok(()),
+            Err(WinErr { fail: LspFail::Protocol(m), .. }) => Err(m),
+            Err(e) => {
+                kill(pool, lsp);
+                let u = e.first.min(texts.len() - 1);
+                many(pool, lsp, job, &texts[..u], crashes, st, out)?;
+                let v = (u + 4).min(texts.len());
+                for k in u..v {
+                    single(pool, lsp, job, &texts[k..k + 1], crashes, st, out)?;
+                }
+                many(pool, lsp, job, &texts[v..], crashes, st, out)
+            }
+        }
+    }
+    let mut crashes = 0u32;
+    let mut i = 0;
+    while i < job.texts.len() {
+        let triggers = server(pool, lsp)?.triggers.len();
+        let mut j = i;
+        let mut reqs = 0;
+        while j < job.texts.len() && (j == i || (reqs < 96 && j - i < 64)) {
+            reqs += request_count(&job.texts[j], job.extra, triggers);
+            j += 1;
+        }
+        many(pool, lsp, job, &job.texts[i..j], &mut crashes, st, out)?;
+        i = j;
+    }
+    Ok(())
+}
+
+fn idem_violation(seam: &str, family: &str, ti: &TextInfo, f1: &str, f2: &str, wrapped: bool, case: Value) -> Violation {
+    let cls = ws_class(f1, f2);
+    let first = f1.split('\n').zip(f2.split('\n')).find(|(x, y)| x != y);
+    Violation {
+        signature: format!("C15/idempotent/{seam}/{}/{cls}{}", ti.stratum, if wrapped { "+linecount-changed" } else { "" }),
+        what: format!(
+            "format(format(s)) != format(s) ({seam}, family {family}); difference class {cls}; first differing line: {:?} vs {:?}",
+            first.map(|p| clip(p.0, 70)),
+            first.map(|p| clip(p.1, 70))
+        ),
+        case,
+    }
+}
+
+/// range / on-type: applying the edits must preserve tokens + specials of the whole text
+fn check_partial(op: &str, family: &str, ti: &TextInfo, edits: &[Edit], lc: &str, case: &Value, out: &mut Vec<Violation>) {
+    if edits.is_empty() {
+        return;
+    }
+    match apply_edits(&ti.text, edits) {
+        Ok(t) => {
+            // cause feature for partial edits: clause + whether whole-document formatting changes
+            // the number of lines (which token gets lost / duplicated depends on the range only)
+            for d in compare(&ti.view, &t) {
+                let e = &edits[0];
+                out.push(Violation {
+                    signature: format!("C15/{}/lsp/{op}/{}/{lc}", d.clause, ti.stratum),
+                    what: format!(
+                        "applying the {op} edit (lines {}..{} replaced by {:?}) (family {family}): {}",
+                        e.sl,
+                        e.el,
+                        clip(&e.text, 80),
+                        d.what
+                    ),
+                    case: case.clone(),
+                });
+            }
+        }
+        Err(m) => out.push(Violation { signature: format!("C15/edits/lsp/{op}/malformed"), what: m, case: case.clone() }),
+    }
+}
+
+// ------------------------------------------------------------------------------------------------
+// web IDE seam
+// ------------------------------------------------------------------------------------------------
+
+pub struct Web {
+    ide: WebIdeState,
+    token: String,
+    dir: PathBuf,
+}
+
+impl Web {
+    pub fn new(dir: PathBuf) -> Result<Web, String> {
+        std::fs::create_dir_all(&dir).map_err(|e| format!("create {dir:?}: {e}"))?;
+        let ide = WebIdeState::new(Some(dir.clone()));
+        let token = ide.create_session(IdeRole::Editor).map_err(|e| format!("web ide session: {e:?}"))?.token;
+        Ok(Web { ide, token, dir })
+    }
+    fn format(&self, text: &str) -> Result<String, String> {
+        match catch(|| self.ide.format_source(&self.token, "main.st", Some(text.to_string()))) {
+            Ok(Ok(r)) => Ok(r.content),
+            Ok(Err(e)) => Err(format!("error {e:?}")),
+            Err(p) => Err(format!("panic: {p}")),
+        }
+    }
+    /// same, but through the file on disk (content = None)
+    fn format_disk(&self, text: &str) -> Result<String, String> {
+        std::fs::write(self.dir.join("main.st"), text).map_err(|e| format!("write main.st: {e}"))?;
+        match catch(|| self.ide.format_source(&self.token, "main.st", None)) {
+            Ok(Ok(r)) => Ok(r.content),
+            Ok(Err(e)) => Err(format!("error {e:?}")),
+            Err(p) => Err(format!("panic: {p}")),
+        }
+    }
+}
+
+pub fn web_bundle(web: &Web, family: &str, ti: &TextInfo, st: &mut Stats, out: &mut Vec<Violation>) {
+    st.bundles += 1;
+    let cfg = DEFAULT_CFG;
+    let case = mk_case("web", "format", family, &ti.text, &cfg, json!({}));
+    let f1 = match web.format(&ti.text) {
+        Ok(f) => f,
+        Err(m) => {
+            if m.starts_with("panic") {
+                let norm: String = m.chars().map(|c| if c.is_ascii_digit() { '#' } else { c }).collect();
+                out.push(Violation {
+                    signature: format!("C15/crash/web/format/{}", clip(&norm, 80)),
+                    what: format!("WebIdeState::format_source panicked on a {}-byte text: {}", ti.text.len(), clip(&m, 200)),
+                    case,
+                });
+            } else {
+                // an error answer is not a property violation, but the text was not checked
+                st.errors += 1;
+            }
+            return;
+        }
+    };
+    let mut clean = true;
+    if f1 != ti.text {
+        st.changed += 1;
+        st.hashes.push(hash64(&f1) ^ 0x5eb);
+        let before = out.len();
+        check_produced("web", "format", family, ti, &f1, "", &case, out);
+        clean = out.len() == before;
+    }
+    // idempotence: same rule as on the LSP seam (clean first pass, no lexer Error tokens)
+    if clean && !ti.view.has_error {
+        st.idem_checks += 1;
+        match web.format(&f1) {
+            Ok(f2) => {
+                if f2 != f1 {
+                    let case = mk_case("web", "idem", family, &ti.text, &cfg, json!({}));
+                    out.push(idem_violation("web", family, ti, &f1, &f2, false, case));
+                }
+            }
+            Err(m) if m.starts_with("panic") => out.push(Violation {
+                signature: "C15/crash/web/idem/panic".into(),
+                what: format!("format_source panicked on its own output: {}", clip(&m, 200)),
+                case,
+            }),
+            Err(_) => st.errors += 1,
+        }
+    }
+}
+
+// ------------------------------------------------------------------------------------------------
+// replay
+// ------------------------------------------------------------------------------------------------
+
+fn scratch_dir(tag: &str) -> PathBuf {
+    static N: AtomicU64 = AtomicU64::new(0);
+    let base = std::env::var("TV_VERIF_DIR").map(PathBuf::from).unwrap_or_else(|_| std::env::temp_dir());
+    base.join(".work").join(format!("C15-{tag}-{}-{}", std::process::id(), N.fetch_add(1, Ordering::Relaxed)))
+}
+
+pub fn check_case(case: &Value) -> Vec<Violation> {
+    let mut out = Vec::new();
+    let family = case["family"].as_str().unwrap_or("?").to_string();
+    let text = case["text"].as_str().unwrap_or("").to_string();
+    let cfg = Cfg::from_json(&case["cfg"]);
+    let op = case["op"].as_str().unwrap_or("format");
+    let ti = TextInfo::new(text);
+    let mut st = Stats::default();
+    if op == "parse" {
+        // diagnostic aid: how the harness classifies a text
+        let p = parse(&ti.text);
+        eprintln!("stratum {} ; parse errors: {:?}", ti.stratum, p.errors().iter().map(|e| e.message.clone()).collect::<Vec<_>>());
+        return out;
+    }
+    if case["seam"].as_str() == Some("web") {
+        let dir = scratch_dir("web");
+        if let Ok(web) = Web::new(dir.clone()) {
+            let mut all = Vec::new();
+            web_bundle(&web, &family, &ti, &mut st, &mut all);
+            out = all;
+        }
+        let _ = std::fs::remove_dir_all(dir);
+    } else {
+        let dir = scratch_dir("lsp");
+        let mut lsp = match Lsp::spawn(&dir) {
+            Ok(l) => l,
+            Err(e) => {
+                eprintln!("C15 replay: cannot start the language server: {e}");
+                return out;
+            }
+        };
+        let mut all = Vec::new();
+        match op {
+            "range" | "ontype" => {
+                let full = lsp.format_text(&cfg, &ti.text);
+                if let Ok(f) = &full {
+                    if !compare(&ti.view, f).is_empty() {
+                        return out; // reported by the format clause, see eval_window
+                    }
+                }
+                let wrapped = full.map(|f| f.matches('\n').count() != ti.text.matches('\n').count()).unwrap_or(false);
+                let lc = if wrapped { "linecount-changed" } else { "linecount-same" };
+                if let Ok(uri) = lsp.open(&cfg, &ti.text) {
+                    let g = |i: usize, key: &str| case[key][i].as_u64().unwrap_or(0) as u32;
+                    let r = if op == "range" {
+                        lsp.range(&uri, &cfg, (g(0, "range"), g(1, "range")), (g(2, "range"), g(3, "range")))
+                    } else {
+                        lsp.on_type(&uri, &cfg, (g(0, "position"), g(1, "position")), case["ch"].as_str().unwrap_or(";"))
+                    };
+                    match r {
+                        Ok(ed) => check_partial(op, &family, &ti, &ed, lc, case, &mut all),
+                        Err(f) => all.push(fail_violation("lsp", op, &f, case.clone())),
+                    }
+                }
+            }
+            _ => {
+                let one = [ti];
+                if let Err(e) = eval_window(&mut lsp, &family, &one, &cfg, Extra::None, true, &mut st, &mut all) {
+                    match (e.fail, e.culprit) {
+                        (LspFail::Protocol(m), _) => eprintln!("C15 replay: protocol error: {m}"),
+                        (f, Some((c, op))) => all.push(fail_violation("lsp", op, &f, c)),
+                        (f, None) => all.push(fail_violation("lsp", "open", &f, case.clone())),
+                    }
+                }
+                out = all;
+                out.retain(|v| v.case["op"] == case["op"]);
+                return out;
+            }
+        }
+        out = all;
+    }
+    // keep only violations of the recorded operation (a bundle checks format + idem together)
+    out.retain(|v| v.case["op"] == case["op"] || v.signature.contains("/crash/"));
+    out
+}
+
+// ------------------------------------------------------------------------------------------------
+// alphabets
+// ------------------------------------------------------------------------------------------------
+
+/// Representative tokens for family (i): identifiers, keywords (both cases), every operator and
+/// punctuation token of the lexer, plain / based / real / typed / time / date literals, strings
+/// containing comment openers and separators, direct addresses.
+pub const TOKENS: &[&str] = &[
+    "x", "abc", "e", "_y", "x1", "IF", "THEN", "END_IF", "NOT", "AND", "OR", "MOD", "TRUE", "INT", "if", "Then",
+    "+", "-", "*", "/", "**", ":=", "=>", "?=", "=", "<>", "<", "<=", ">", ">=", "&", "..", ".", "#", "^", "@",
+    "(", ")", "[", "]", ",", ";", ":",
+    "5", "1_000", "16#FF", "2#1010", "1.5", "1.5e3", "1.", "INT#5", "T#1s", "t#1h30m", "D#2020-01-01", "TOD#12:00:00",
+    "'s'", "\"w\"", "'a b'", "'a  b'", "';'", "':='", "'a:b'", "'(*'", "'//'", "'it$'s'", "%IX0.0", "%MW10", "%Q*",
+];
+
+fn wrap_program(var_lines: &[&str], body_lines: &[String], eol: &str) -> String {
+    let mut v: Vec<String> = vec!["PROGRAM p".into(), "VAR".into(), "x : INT;".into()];
+    v.extend(var_lines.iter().map(|s| s.to_string()));
+    v.push("END_VAR".into());
+    v.extend(body_lines.iter().cloned());
+    v.push("END_PROGRAM".into());
+    let mut s = v.join(eol);
+    s.push_str(eol);
+    s
+}
+
+/// Contexts of the token-pair family.
+pub const PAIR_CTX: &[&str] = &["line", "glued", "expr", "tail", "var", "call"];
+
+pub fn pair_text(ctx: &str, a: &str, b: &str) -> String {
+    match ctx {
+        // the two tokens alone on a statement line
+        "line" => wrap_program(&[], &[format!("{a} {b}")], "\n"),
+        // same, written without a blank between them (the lexer decides what the tokens are)
+        "glued" => wrap_program(&[], &[format!("{a}{b}")], "\n"),
+        // in the middle of an assignment (valid for operator / unary-operator pairs)
+        "expr" => wrap_program(&[], &[format!("x := y {a} {b} z;"), "yy := 2;".to_string()], "\n"),
+        // at the end of an assignment (valid for operator + operand pairs)
+        "tail" => wrap_program(&[], &[format!("x := y {a} {b};"), "yy := 2;".to_string()], "\n"),
+        // on a line of a VAR block between two declarations (colon alignment acts here)
+        "var" => {
+            let l = format!("{a} {b}");
+            let mut v: Vec<String> = vec!["PROGRAM p".into(), "VAR".into(), "x : INT;".into(), l, "longer_name : INT;".into(), "END_VAR".into(), "END_PROGRAM".into()];
+            v.push(String::new());
+            v.join("\n")
+        }
+        // inside a long call (wrapping at commas acts here when a maximum line length is set)
+        _ => wrap_program(&[], &[format!("result_value_long := function_name(y {a} {b} z, second_argument, third);")], "\n"),
+    }
+}
+
+/// Segments of the mixed-line family (iii).
+pub const SEGMENTS: &[&str] = &[
+    "x := 1;", "y:=x+2 ;", "IF x=1 THEN", "END_IF;", "(* c *)", "(* a; b := 'q' // z *)", "// c", "//c (* d *) {e}", "/* c */",
+    "{p}", "{attribute 'x;y'}", "'a(*b'", "'//n'", "';'", "\"w;(*\"", "s := 'it$'s (* x *)';", "(* l1\n   l2 *)", "{m1\n   m2}",
+    "(* a (* nested *) b *)", "f(x, 'a,b', y);", "s := 'two  blanks';  (* two  blanks *)",
+];
+
+pub fn mixed_text(segs: &[usize], sep: &str, eol: &str, trailing_newline: bool) -> String {
+    let line = segs.iter().map(|&i| SEGMENTS[i]).collect::<Vec<_>>().join(sep);
+    let lines: Vec<String> = line.split('\n').map(|s| s.to_string()).collect();
+    let mut body = vec!["s := 'q';".to_string()];
+    body.extend(lines);
+    body.push("x := 2;".to_string());
+    let mut t = wrap_program(&["s : STRING;"], &body, eol);
+    if !trailing_newline {
+        let n = t.len() - eol.len();
+        t.truncate(n);
+    }
+    t
+}
+
+/// Hand-written programs (family iv): long comma lines (wrapping x range / on-type formatting),
+/// and valid programs built around the constructs the other families showed to be fragile, so
+/// that every defect is also looked for on a syntactically valid program.
+pub const CRAFTED: &[&str] = &[
+    "PROGRAM p\nVAR\na, b, c : INT;\nEND_VAR\na := f(a, b, c, 1, 2, 3, 4, 5, 6, 7);\nb := 2;\nc := g('p,q', a, b, c, 1, 2, 3, 4, 5);\nEND_PROGRAM\n",
+    "PROGRAM p\nVAR\narr : ARRAY[0..3] OF INT;\nlong_name_one, long_name_two, long_name_three : INT;\nEND_VAR\nIF a = 1 THEN\nfb(in1 := a, in2 := b, out1 => c, out2 => d);\nELSE\na := 1;\nEND_IF;\nEND_PROGRAM\n",
+    "FUNCTION_BLOCK fb\nVAR_INPUT\na : INT;\nEND_VAR\nCASE a OF\n1, 2, 3, 4, 5, 6, 7, 8, 9, 10, 11, 12: a := 0;\n13: a := MAX(a, 1, 2, 3, 4, 5, 6, 7, 8);\nEND_CASE;\nfirst := 1;\nsecond_longer := 2;\nEND_FUNCTION_BLOCK\n",
+    "PROGRAM p\r\nVAR\r\na : INT;\r\nEND_VAR\r\na := g(a, a, a, a, a, a, a, a, a, a, a);\r\nb := h(a, 'x,y', a, a, a, a, a, a, a); // c\r\nlast := 9;\r\nEND_PROGRAM\r\n",
+    "PROGRAM p\n\tx := f(1, 2,\n\t\t3, 4, 5, 6, 7, 8, 9, 10, 11, 12);\n\ty := 1;\n\n\tz := x;\nEND_PROGRAM",
+    "TYPE t : STRUCT\na : INT;\nEND_STRUCT\nEND_TYPE\nPROGRAM p\nVAR\ns : t;\nEND_VAR\nfoo(1, 2, 3, 4, 5, 6, 7, 8, 9, 10, 11);\nbar(1,\n2);\nx := 1;\nEND_PROGRAM\n",
+    // typed literals after keyword operators
+    "PROGRAM p\nVAR\na, b : INT;\nc : BOOL;\nEND_VAR\na := b MOD INT#3;\nc := c AND BOOL#TRUE;\nc := NOT BOOL#FALSE OR c XOR BOOL#1;\nIF a = INT#5 THEN\na := -INT#1;\nEND_IF;\nEND_PROGRAM\n",
+    // literals containing ':' on continuation lines of a VAR block
+    "PROGRAM p\nVAR\nt1 : TOD :=\nTOD#12:00:00;\nmsg : STRING :=\n'a:b';\nn : INT;\nEND_VAR\nn := 1;\nEND_PROGRAM\n",
+    // pragmas that span lines
+    "{attribute 'qualified_only'\n 'x'}\nPROGRAM p\nVAR\n{info\n  more}\nx : INT;\nEND_VAR\nx := 1; {note\n continues} x := 2;\nEND_PROGRAM\n",
+    // densely written valid code: every operator, literal kind, statement kind
+    "PROGRAM p\nVAR\na,b:INT;p1:REF_TO INT;r:REAL;t:TIME;d:DATE;s:WSTRING;q:BOOL;\nEND_VAR\na:=16#FF+2#1010-b;r:=1.5E-3*r**-2.0;r:=r**2;a:=-(-a);a:=- -a;\nt:=T#1h30m-T#-5s;d:=D#2020-01-01;s:=\"w$\"q\";\nq:=a<>b;q:=a<=b AND b>=a OR a<b XOR a>b;q:=NOT q&q;\np1:=REF(a);p1^:=1;a:=p1^+1;\nIF a=1 THEN a:=2;ELSIF a=2 THEN a:=3;ELSE a:=4;END_IF;\nCASE a OF 1..3:a:=0;4,5:a:=1;ELSE a:=2;END_CASE;\nFOR a:=1 TO 10 BY 2 DO b:=b+a;END_FOR;\nf(x:=1,y=>a);\nEND_PROGRAM\n",
+    // the same, written with blanks around everything
+    "PROGRAM p\nVAR\na , b : INT ; r : REAL ; q : BOOL ;\nEND_VAR\na := 16#FF + 2#1010 - b ; r := 1.5E-3 * r ** - 2.0 ; a := - ( - a ) ; a := - - a ;\nq := a <> b ; q := a <= b AND b >= a OR a < b XOR a > b ; q := NOT q & q ;\nCASE a OF 1 .. 3 : a := 0 ; 4 , 5 : a := 1 ; END_CASE ;\nf ( x := 1 , y => a ) ; a := arr [ 1 ] . fld ^ ;\nEND_PROGRAM\n",
+    // nested blocks, lower-case keywords, end keywords (indentation styles)
+    "function_block fb\nvar_input\nen : bool;\nend_var\nvar\ni : int;\nend_var\nif en then\nfor i := 0 to 3 do\nwhile i < 2 do\ni := i + 1;\nend_while;\nrepeat\ni := i - 1;\nuntil i = 0\nend_repeat;\nend_for;\nelse\ni := 0;\nend_if;\nend_function_block\n",
+];
+
+// ------------------------------------------------------------------------------------------------
+// the explorer
+// ------------------------------------------------------------------------------------------------
+
+struct Job<'a> {
+    family: &'static str,
+    texts: &'a [TextInfo],
+    cfg: Cfg,
+    extra: Extra,
+}
+
+fn push<'a>(jobs: &mut Vec<Job<'a>>, family: &'static str, texts: &'a [TextInfo], cfgs: &[Cfg], extra: Extra, chunk: usize) {
+    for c in cfgs {
+        for part in texts.chunks(chunk) {
+            jobs.push(Job { family, texts: part, cfg: *c, extra });
+        }
+    }
+}
+
+fn option_effect_selftest(pool: &Pool) -> Result<Vec<u64>, String> {
+    // every value of every option dimension must be observable in the output of the real server,
+    // otherwise the configuration path of the harness is broken and the product would be vacuous
+    let probe = "program p\nvar\na : int;\nlongname : int;\nend_var\nif a=1 then\na:=f(a,2,3,4,5,6,7,8,9,10,11,12,13,14,15,16,17,18,19,20);\nbb:=g(1,2,3,4,5);\nEnd_If\nend_program\n";
+    let need = [4usize, 3, 2, 2, 2, 2, 3, 3];
+    let mut lsp = pool.take()?;
+    let mut seen = Vec::new();
+    for (d, (name, menu)) in DIMS.iter().enumerate() {
+        let mut outs = HashSet::new();
+        for v in 0..menu.len() {
+            let mut c = DEFAULT_CFG;
+            c.0[d] = v as u8;
+            let o = lsp.format_text(&c, probe).map_err(|e| format!("self-test request failed: {e:?}"))?;
+            outs.insert(o);
+        }
+        if outs.len() < need[d] {
+            return Err(format!("option {name}: only {} distinct outputs over {} values — the configuration does not reach the formatter", outs.len(), menu.len()));
+        }
+        seen.push(outs.len() as u64);
+    }
+    pool.give(lsp);
+    Ok(seen)
+}
+
+pub fn run(ctx: &Ctx) -> EngineResult {
+    quiet_panics();
+    let mut rep = Report::new("exploration");
+    let quick = ctx.tier == Tier::Quick;
+    // wall cap of the LSP seam (TV_C15_CAP_S overrides it, for experiments on a loaded machine)
+    let cap_s = std::env::var("TV_C15_CAP_S").ok().and_then(|s| s.parse().ok()).unwrap_or(ctx.tier.pick(38u64, 830u64));
+    let deadline = Instant::now() + Duration::from_secs(cap_s);
+    let work = ctx.work_dir();
+    let pool = Pool::new(work.join("lsp"));
+    let spawners = pool.start_spawners(3, 8);
+    let stack = 8 << 20;
+
+    let effects = option_effect_selftest(&pool).map_err(Machinery)?;
+    rep.set("option_values_observable", json!(effects));
+
+    let cover = covering_array();
+    let product = full_product();
+    rep.set("configs_covering_array", cover.len() as u64);
+    rep.set("configs_full_product", product.len() as u64);
+    // a handful of configurations for the expensive range / on-type sweeps: default, and rows that
+    // make wrapping act (max line length 20 / 40) under both spacing styles and CRLF-safe indents
+    let wrap_cfgs: Vec<Cfg> = {
+        let mut v = vec![DEFAULT_CFG];
+        for &m in &[1u8, 2] {
+            for &sp in &[1u8, 2] {
+                for &ind in &[0u8, 2] {
+                    v.push(Cfg([ind, 2, sp, if ind == 0 { 1 } else { 2 }, 1, 1, m, 0]));
+                }
+            }
+        }
+        v.push(Cfg([1, 0, 0, 0, 0, 0, 1, 2])); // siemens profile + maxlen 20
+        v.push(Cfg([0, 0, 0, 0, 2, 2, 2, 1])); // codesys profile, no alignment, maxlen 40
+        v
+    };
+
+    // ---------------- texts
+    let files = crate::corpus::st_files(&ctx.repo_dir);
+    if files.len() < 10 {
+        return machinery(format!("only {} .st corpus files found under {:?}", files.len(), ctx.repo_dir));
+    }
+    let astral = |t: &str| t.chars().any(|c| c as u32 > 0xFFFF);
+    let lone_cr = |t: &str| {
+        let b = t.as_bytes();
+        (0..b.len()).any(|i| b[i] == b'\r' && b.get(i + 1) != Some(&b'\n'))
+    };
+    let mut skipped_files = 0u64;
+    let mut corpus_whole: Vec<TextInfo> = Vec::new();
+    let mut corpus_small: Vec<TextInfo> = Vec::new();
+    let mut corpus_mut: Vec<TextInfo> = Vec::new();
+    for (_, text) in &files {
+        if astral(text) || lone_cr(text) {
+            skipped_files += 1;
+            continue;
+        }
+        corpus_whole.push(TextInfo::new(text.clone()));
+        let nl = text.split('\n').count();
+        if nl <= 41 {
+            corpus_small.push(TextInfo::new(text.clone()));
+        }
+        let lines: Vec<&str> = text.split_inclusive('\n').collect();
+        for i in 0..lines.len() {
+            let mut del = String::with_capacity(text.len());
+            let mut dup = String::with_capacity(text.len() + lines[i].len());
+            for (j, l) in lines.iter().enumerate() {
+                if j != i {
+                    del.push_str(l);
+                }
+                dup.push_str(l);
+                if j == i {
+                    if !l.ends_with('\n') {
+                        dup.push('\n');
+                    }
+                    dup.push_str(l);
+                }
+            }
+            corpus_mut.push(TextInfo::new(del));
+            corpus_mut.push(TextInfo::new(dup));
+        }
+    }
+    rep.set("corpus_files", corpus_whole.len() as u64);
+    rep.set("corpus_files_skipped_astral_or_lone_cr", skipped_files);
+    rep.set("corpus_files_le_40_lines", corpus_small.len() as u64);
+    rep.set("corpus_line_mutations", corpus_mut.len() as u64);
+
+    let mut pair_texts: Vec<Vec<TextInfo>> = Vec::new();
+    for ctxname in PAIR_CTX {
+        let mut v = Vec::with_capacity(TOKENS.len() * TOKENS.len());
+        for a in TOKENS {
+            for b in TOKENS {
+                v.push(TextInfo::new(pair_text(ctxname, a, b)));
+            }
+        }
+        pair_texts.push(v);
+    }
+    let max_seg = ctx.tier.pick(2usize, 3usize);
+    let mut mixed: Vec<TextInfo> = Vec::new();
+    for edge in ["", "\n", "\r\n", "x", "x;", " \t\n", "\n\n", "(* c *)", "// c", "{p}", "'s'"] {
+        mixed.push(TextInfo::new(edge.to_string()));
+    }
+    for len in 1..=max_seg {
+        let n = SEGMENTS.len();
+        for idx in 0..n.pow(len as u32) {
+            let mut segs = Vec::new();
+            let mut k = idx;
+            for _ in 0..len {
+                segs.push(k % n);
+                k /= n;
+            }
+            for sep in [" ", "", "\t"] {
+                // length 1: the separator does not occur; length 3 (thorough only) and the quick
+                // tier: no tab separator; length 3: blank separator only
+                if (len == 1 && sep != " ") || (quick && sep == "\t") || (len == 3 && sep != " ") {
+                    continue;
+                }
+                for (eol, tn) in [("\n", true), ("\r\n", true), ("\n", false)] {
+                    if len == 3 && !tn {
+                        continue;
+                    }
+                    mixed.push(TextInfo::new(mixed_text(&segs, sep, eol, tn)));
+                }
+            }
+        }
+    }
+    let wrap_texts: Vec<TextInfo> = CRAFTED.iter().map(|s| TextInfo::new(s.to_string())).collect();
+    rep.set("pair_tokens", TOKENS.len() as u64);
+    rep.set("pair_texts", (pair_texts.len() * pair_texts[0].len()) as u64);
+    rep.set("mixed_texts", mixed.len() as u64);
+    eprintln!("[C15] texts built at {:.1}s: pairs {}x{}, mixed {}, corpus {} (+{} mutations), {} covering configs", ctx.elapsed(), pair_texts.len(), pair_texts[0].len(), mixed.len(), corpus_whole.len(), corpus_mut.len(), cover.len());
+
+    // ---------------- jobs (simplest first)
+    let chunk = 256usize;
+    let mut jobs: Vec<Job> = Vec::new();
+    // three far-apart configurations for the big families of the quick tier (default; 2 blanks,
+    // upper case, compact, max 40; tabs, lower case, siemens profile, max 20)
+    let few: Vec<Cfg> = vec![DEFAULT_CFG, Cfg([1, 2, 2, 1, 1, 1, 2, 0]), Cfg([2, 3, 0, 0, 0, 0, 1, 2])];
+    // (iv) crafted programs: all covering configs, all ranges, all on-type positions
+    push(&mut jobs, "crafted", &wrap_texts, &cover, Extra::RangesAndOnType { alt_range_form: false }, 1);
+    push(&mut jobs, "crafted", &wrap_texts, if quick { &wrap_cfgs[..5] } else { &wrap_cfgs }, Extra::RangesAndOnType { alt_range_form: true }, 1);
+    // (i) token pairs
+    for (ci, ctxname) in PAIR_CTX.iter().enumerate() {
+        let fam: &'static str = match *ctxname {
+            "line" => "pair:line",
+            "glued" => "pair:glued",
+            "expr" => "pair:expr",
+            "tail" => "pair:tail",
+            "var" => "pair:var",
+            _ => "pair:call",
+        };
+        let cfgs: &[Cfg] = if quick && *ctxname != "line" { &few } else { &cover };
+        push(&mut jobs, fam, &pair_texts[ci], cfgs, Extra::None, chunk);
+    }
+    // (iii) mixed comment / pragma / string lines, CRLF, tabs
+    push(&mut jobs, "mixed", &mixed, &cover, Extra::None, chunk);
+    push(&mut jobs, "mixed", &mixed[..mixed.len().min(300)], &wrap_cfgs[..3], Extra::OnType, 32);
+    // (ii) corpus
+    push(&mut jobs, "corpus", &corpus_whole, &cover, Extra::None, 4);
+    push(&mut jobs, "corpus", &corpus_whole, if quick { &wrap_cfgs[..3] } else { &wrap_cfgs }, Extra::OnType, 2);
+    push(&mut jobs, "corpus-range", &corpus_small, if quick { &wrap_cfgs[..2] } else { &wrap_cfgs }, Extra::RangesAndOnType { alt_range_form: !quick }, 1);
+    if !quick {
+        push(&mut jobs, "corpus-range", &corpus_small, &cover, Extra::RangesAndOnType { alt_range_form: false }, 1);
+    }
+    push(&mut jobs, "corpus-line-mutation", &corpus_mut, if quick { &few } else { &cover }, Extra::None, 64);
+    // (i) thorough: the full product of explicit option values for the pair family
+    if !quick {
+        for (ci, ctxname) in PAIR_CTX.iter().enumerate() {
+            let fam: &'static str = match *ctxname {
+                "line" => "pair:line*product",
+                _ => continue,
+            };
+            push(&mut jobs, fam, &pair_texts[ci], &product, Extra::None, 1024);
+        }
+    }
+
+    let machinery_err: Mutex<Option<String>> = Mutex::new(None);
+    let res = par_map(&jobs, ctx.threads, stack, Some(deadline), |_, job| {
+        let mut st = Stats::default();
+        let mut out = Vec::new();
+        if machinery_err.lock().unwrap().is_some() {
+            return (st, out);
+        }
+        let mut lsp: Option<Lsp> = None;
+        if let Err(e) = eval_job(&pool, &mut lsp, job, &mut st, &mut out) {
+            *machinery_err.lock().unwrap() = Some(e);
+        }
+        if let Some(l) = lsp {
+            pool.give(l);
+        }
+        (st, out)
+    });
+    if let Some(e) = machinery_err.into_inner().unwrap() {
+        return machinery(format!("language server seam: {e}"));
+    }
+    let mut total = Stats::default();
+    let mut exhaustive = true;
+    let mut done_jobs = 0u64;
+    let mut fam_done: std::collections::BTreeMap<&str, (u64, u64)> = Default::default();
+    for (job, r) in jobs.iter().zip(res) {
+        let e = fam_done.entry(job.family).or_insert((0, 0));
+        e.1 += 1;
+        match r {
+            Some((st, v)) => {
+                done_jobs += 1;
+                e.0 += 1;
+                total.merge(st);
+                rep.violations_from(v);
+            }
+            None => exhaustive = false,
+        }
+    }
+    if !quick {
+        // completed bound of the full product: configurations whose every job was executed
+        let (done, all) = fam_done.get("pair:line*product").copied().unwrap_or((0, 0));
+        let per_cfg = (pair_texts[0].len() as u64).div_ceil(1024);
+        rep.set("full_product_configs_completed", done / per_cfg.max(1));
+        rep.set("full_product_configs", all / per_cfg.max(1));
+    }
+    if !exhaustive {
+        let detail: Vec<String> = fam_done.iter().filter(|(_, v)| v.0 < v.1).map(|(k, v)| format!("{k}: {}/{} jobs", v.0, v.1)).collect();
+        rep.cap(format!("wall cap reached on the LSP seam: {} of {} jobs done ({})", done_jobs, jobs.len(), detail.join(", ")));
+    }
+    eprintln!("[C15] lsp seam done at {:.1}s ({} jobs)", ctx.elapsed(), jobs.len());
+    drop(jobs);
+    pool.shutdown(spawners);
+
+    // ---------------- web IDE seam: every text of every family once
+    let mut all_texts: Vec<(&'static str, &TextInfo)> = Vec::new();
+    for t in &wrap_texts {
+        all_texts.push(("crafted", t));
+    }
+    for v in &pair_texts {
+        for t in v {
+            all_texts.push(("pair", t));
+        }
+    }
+    for t in &mixed {
+        all_texts.push(("mixed", t));
+    }
+    for t in &corpus_whole {
+        all_texts.push(("corpus", t));
+    }
+    for t in &corpus_mut {
+        all_texts.push(("corpus-line-mutation", t));
+    }
+    let parts: Vec<&[(&'static str, &TextInfo)]> = all_texts.chunks(512).collect();
+    let web_err: Mutex<Option<String>> = Mutex::new(None);
+    let wres = par_map(&parts, ctx.threads, stack, None, |i, part| {
+        let mut st = Stats::default();
+        let mut out = Vec::new();
+        let web = match Web::new(work.join(format!("web{i}"))) {
+            Ok(w) => w,
+            Err(e) => {
+                *web_err.lock().unwrap() = Some(e);
+                return (st, out);
+            }
+        };
+        if i == 0 {
+            // once: the on-disk path (content = None) gives the same result as the in-memory path
+            let t = part[0].1;
+            if web.format_disk(&t.text) != web.format(&t.text) {
+                *web_err.lock().unwrap() = Some("format_source(None) differs from format_source(Some(content))".into());
+            }
+        }
+        for (fam, ti) in part.iter() {
+            web_bundle(&web, fam, ti, &mut st, &mut out);
+        }
+        (st, out)
+    });
+    if let Some(e) = web_err.into_inner().unwrap() {
+        return machinery(format!("web IDE seam: {e}"));
+    }
+    let mut wtotal = Stats::default();
+    for r in wres.into_iter().flatten() {
+        wtotal.merge(r.0);
+        rep.violations_from(r.1);
+    }
+    eprintln!("[C15] web seam done at {:.1}s", ctx.elapsed());
+
+    // ---------------- report
+    let lsp_requests = pool.requests.load(Ordering::Relaxed) + pool.free.lock().unwrap().iter().map(|l| l.requests).sum::<u64>();
+    if total.bundles == 0 || total.changed == 0 {
+        return machinery("LSP seam vacuous: no text was changed by the formatter");
+    }
+    if total.range_nonempty == 0 || total.ontype_nonempty == 0 {
+        return machinery("range / on-type formatting never returned an edit: family vacuous");
+    }
+    if wtotal.changed == 0 {
+        return machinery("web seam vacuous: format_source never changed a text");
+    }
+    if wtotal.errors > 0 {
+        return machinery(format!("web seam: format_source answered an error for {} texts (not checked)", wtotal.errors));
+    }
+    let mut distinct: HashSet<u64> = HashSet::new();
+    distinct.extend(total.hashes.iter().copied());
+    distinct.extend(wtotal.hashes.iter().copied());
+    rep.set("evaluations", lsp_requests + wtotal.bundles + wtotal.idem_checks);
+    rep.set("distinct_nontrivial", distinct.len() as u64);
+    rep.set("rule", "every (text, configuration) of: (i) every ordered pair of the token menu (identifiers, keywords in both cases, every operator / punctuation token, plain / based / real / typed / time / date literals, strings containing comment openers and separators, direct addresses) in 6 line contexts (alone, written without a blank, inside an assignment, at the end of an assignment, inside a VAR block, inside a long call); (ii) every .st file of the repository and every single-line deletion / duplication of it; (iii) every sequence of <= L segments (code, block / line / C comments, nested comments, pragmas incl. multi-line, strings containing comment openers and separators) x separator {blank, none, tab} x {LF, CRLF, no final newline} (L = 2 quick, 3 thorough) plus degenerate documents; (iv) hand-written valid programs (long comma lines, typed literals after keyword operators, literals with ':' in VAR blocks, multi-line pragmas, dense / blank-separated operators, nested blocks in lower case). Configurations: a pairwise covering array over the 8 option dimensions incl. 'unset' (indent via FormattingOptions or settings, keyword case, spacing style, end-keyword style, two alignment flags, max line length, vendor profile via trust-lsp.toml); quick uses 3 far-apart configurations for the larger families; thorough adds the full product of the explicit option values for the 'alone' context of (i). Per (text, cfg): textDocument/formatting and re-formatting of the result; for (ii, files <= 40 lines) and (iv) every line interval by rangeFormatting and every line end x advertised trigger character by onTypeFormatting. Web IDE: every text once through WebIdeState::format_source (+ re-formatting). distinct_nontrivial = distinct (configuration, formatted text) results in which the formatter changed its input.");
+    rep.set("lsp_requests", lsp_requests);
+    rep.set("lsp_servers_spawned", pool.spawned.load(Ordering::Relaxed));
+    rep.set("lsp_servers_lost_to_crashes", pool.crashed.load(Ordering::Relaxed));
+    rep.set("lsp_bundles", total.bundles);
+    rep.set("lsp_bundles_changed_by_formatter", total.changed);
+    rep.set("lsp_bundles_line_count_changed", total.wrapped);
+    rep.set("lsp_bundles_valid_program", total.valid);
+    rep.set("lsp_bundles_lexer_error_input", total.lexerr);
+    rep.set("lsp_idempotence_checks", total.idem_checks);
+    rep.set("range_requests", total.range_reqs);
+    rep.set("range_requests_with_edit", total.range_nonempty);
+    rep.set("range_requests_expanded_to_block", total.range_expanded);
+    rep.set("ontype_requests", total.ontype_reqs);
+    rep.set("ontype_requests_with_edit", total.ontype_nonempty);
+    rep.set("web_texts", wtotal.bundles);
+    rep.set("web_texts_changed", wtotal.changed);
+    rep.set("exhaustive", exhaustive);
+    rep.sample(json!({"family": "pair:line", "text": pair_text("line", "*", "*"), "cfg": cover[1].to_json()}));
+    rep.sample(json!({"family": "mixed", "text": mixed_text(&[0, 16], " ", "\r\n", true)}));
+    rep.sample(json!({"family": "crafted", "text": CRAFTED[0], "cfg": wrap_cfgs[1].to_json()}));
+    rep.assume("positions are exchanged in UTF-16 units; texts with astral-plane characters or lone CR line ends are left out (property C14)");
+    rep.assume("inputs whose lexing contains Error tokens are only required to keep the token-text sequence and not to crash the formatter");
+    rep.assume("comments and pragmas are compared modulo line-ending style and leading/trailing blanks of each of their lines");
+    Ok(rep)
 }
 
 pub fn workers() -> Vec<(&'static str, WorkerFn)> {
